@@ -5,10 +5,11 @@ import ast
 import itertools
 import json
 
+from sa import minieval
 from sa import pat as _pat
 from sa import source
 from sa.cfg import cfg_of, conjuncts, guards, negate
-from sa.classes import is_logging_stmt
+from sa.classes import is_logging_call, is_logging_stmt
 from sa.source import AnchorMissing, dotted, is_self_attr, last_attr, local_defs, package_calls, params_of, short, u, walk_body
 from sa.sym import UnknownAtom, bool_eval, oriented
 from sa.tables import Outcome, Unsupported, decide, const_value
@@ -41,248 +42,1114 @@ def emptiness_test(test, obj_text):
     return None
 
 
+def dnf(e, limit=16):
+    """disjunctive normal form of a condition as a list of conjunct lists (negations pushed in over and / or); None if it grows beyond `limit` disjuncts"""
+    if isinstance(e, ast.UnaryOp) and isinstance(e.op, ast.Not) and isinstance(e.operand, ast.BoolOp):
+        e = negate(e.operand)
+    if isinstance(e, ast.BoolOp) and isinstance(e.op, ast.Or):
+        out = []
+        for v in e.values:
+            d = dnf(v, limit)
+            if d is None:
+                return None
+            out += d
+        return out if len(out) <= limit else None
+    if isinstance(e, ast.BoolOp) and isinstance(e.op, ast.And):
+        out = [[]]
+        for v in e.values:
+            d = dnf(v, limit)
+            if d is None:
+                return None
+            out = [a + b for a in out for b in d]
+            if len(out) > limit:
+                return None
+        return out
+    return [[e]]
+
+
+def beval(e, at):
+    """bool_eval that also reads conditional expressions and short-circuits"""
+    v = at(e)
+    if v is not None:
+        return v
+    if isinstance(e, ast.IfExp):
+        return beval(e.body if beval(e.test, at) else e.orelse, at)
+    if isinstance(e, ast.BoolOp):
+        for x in e.values:
+            if beval(x, at) != isinstance(e.op, ast.And):
+                return not isinstance(e.op, ast.And)
+        return isinstance(e.op, ast.And)
+    if isinstance(e, ast.UnaryOp) and isinstance(e.op, ast.Not):
+        return not beval(e.operand, at)
+    return bool_eval(e, at)
+
+
+def scan_eval(body, is_coll, is_elem_test, base_atom, vec):
+    """Boolean returned by a routine that scans a collection - loop with return, flag and break / continue, for-else, any() / all() over a generator -, EVALUATED on the vector
+    `vec` of per-element test results. is_coll(expr): the iterated expression is the collection; is_elem_test(node, var): node is the per-element test for the loop variable var;
+    base_atom(node): truth of any other atomic condition (or None)."""
+    def atom_p(n, env):
+        if env.get("var") is not None and is_elem_test(n, env["var"]):
+            return env["leaf"]
+        if isinstance(n, ast.Call) and dotted(n.func) in ("any", "all") and len(n.args) == 1 and isinstance(n.args[0], (ast.GeneratorExp, ast.ListComp)) and len(n.args[0].generators) == 1:
+            g = n.args[0].generators[0]
+            if is_coll(g.iter) and isinstance(g.target, ast.Name) and not g.is_async:
+                vals = [beval(n.args[0].elt, lambda x, v=v: atom_p(x, {"var": g.target.id, "leaf": v})) for v in vec
+                        if all(beval(c_, lambda x, v=v: atom_p(x, {"var": g.target.id, "leaf": v})) for c_ in g.ifs)]
+                return any(vals) if dotted(n.func) == "any" else all(vals)
+        return base_atom(n)
+
+    jump_b = {}
+
+    def on_stmt_p(s_, env, b_):
+        if is_logging_stmt(s_):
+            return "skip"
+        if isinstance(s_, (ast.Break, ast.Continue)):
+            jump_b["b"] = dict(b_)  # locals bound so far on the path that leaves the iteration here
+        if env.get("var") is not None and isinstance(s_, ast.Assign) and len(s_.targets) == 1 and isinstance(s_.targets[0], ast.Name):
+            # a flag computed from the current element is fixed now (the loop variable means something else in the next iteration)
+            def at_(x):
+                if isinstance(x, ast.Name) and b_.get(x.id) is not None:
+                    return beval(b_[x.id], at_)
+                return atom_p(x, env)
+
+            try:
+                b_[s_.targets[0].id] = ast.Constant(value=beval(s_.value, at_))
+                return "skip"
+            except UnknownAtom:
+                return None
+        if isinstance(s_, ast.For) and is_coll(s_.iter) and isinstance(s_.target, ast.Name):
+            broke = False
+            for v in vec:
+                o_ = decide(s_.body, atom_p, {"var": s_.target.id, "leaf": v}, b_, on_stmt_p)
+                if o_.kind == "return" and o_.value is not None:
+                    o_.value = ast.Constant(value=beval(o_.value, lambda x, v=v: atom_p(x, {"var": s_.target.id, "leaf": v})))  # a result computed from the current element is fixed here
+                if o_.kind in ("return", "raise"):
+                    return o_
+                b_.update(jump_b.pop("b", {}) if o_.kind in ("break", "continue") else getattr(o_, "bindings", {}))
+                if o_.kind == "break":
+                    broke = True
+                    break
+            if s_.orelse and not broke:
+                o_ = decide(s_.orelse, atom_p, env, b_, on_stmt_p)
+                if o_.kind != "fallthrough":
+                    return o_
+                b_.update(getattr(o_, "bindings", {}))
+            return "skip"
+        return None
+
+    o_ = decide(body, atom_p, {}, on_stmt=on_stmt_p)
+    if o_.kind != "return" or o_.value is None:
+        raise Unsupported(f"no boolean result ({o_.text()})")
+    return beval(o_.value, lambda x: atom_p(x, {}))
+
+
+VECS = ([], [True], [False], [True, False], [False, True], [False, False], [True, True])
+
+
+def strip_sel(e):
+    """the collection expression under slices / list() / reversed() / .copy() wrappers (what KIND of object is iterated, not how much of it)."""
+    while True:
+        if isinstance(e, ast.Subscript):
+            e = e.value
+        elif isinstance(e, ast.Call) and dotted(e.func) in ("list", "reversed", "sorted", "tuple", "iter") and len(e.args) == 1:
+            e = e.args[0]
+        elif isinstance(e, ast.Call) and isinstance(e.func, ast.Attribute) and e.func.attr == "copy" and not e.args:
+            e = e.func.value
+        else:
+            return e
+
+
+# ---------------------------------------------------------------------------------------------------------------------------------------------------------
+# local helpers (candidates for sa/): structural copy, helper inlining, interpretation of small extracted functions on representative values
+
+
+def _copy_ast(n):
+    """structural copy of an analysed AST: positions and the N8 / N9 marks are kept, the parent / module links are NOT followed (copy.deepcopy would drag the whole package along)."""
+    if isinstance(n, list):
+        return [_copy_ast(x) for x in n]
+    if not isinstance(n, ast.AST):
+        return n
+    new = type(n)(**{f: _copy_ast(v) for f, v in ast.iter_fields(n)})
+    for a in ("lineno", "col_offset", "end_lineno", "end_col_offset", "_synthetic_arm", "_from_constant"):
+        if hasattr(n, a):
+            setattr(new, a, getattr(n, a))
+    return new
+
+
+class _NotInlinable(Exception):
+    pass
+
+
+def _own_body(h):
+    """statements of a helper without docstring and logging"""
+    return [s for s in h.body if not is_logging_stmt(s) and not (isinstance(s, ast.Expr) and isinstance(s.value, ast.Constant))]
+
+
+def _has(stmts, types):
+    return any(isinstance(x, types) for s in (stmts if isinstance(stmts, list) else [stmts]) for x in source.walk_local(s))
+
+
+def inline_helpers(root, resolve, parent=None, depth=4):
+    """Copy of the function `root` in which calls of helper functions are expanded in place (`resolve(call)` -> FunctionDef of the callee or None), so that a rule stated on ONE
+    function reads a caller together with the helpers extracted from it:
+      * a helper that only returns an expression is substituted wherever it is called;
+      * `self.h(a)` as a statement, `x = self.h(a)`, `return self.h(a)`, `if [not] self.h(a): Y else: Z` are replaced by the helper's body, every `return E` of which (all of them
+        must be in tail position - guard clauses are, after N8) becomes nothing / `x = E` / `return E` / `if [not] E: Y else: Z`; falling off the end counts as `return None`.
+    Parameters are replaced by the argument expressions (simple arguments) or bound to fresh locals first; locals of the helper that clash with names of the caller are renamed.
+    Returns (function, expanded helper ids, helper ids that could not be expanded at some call). Statement positions are those of the original statements."""
+    f = _copy_ast(root)
+    names = {x.id for x in ast.walk(f) if isinstance(x, ast.Name)} | {a.arg for a in ast.walk(f) if isinstance(a, ast.arg)}
+    expanded, failed = set(), set()
+
+    def fresh(nm):
+        k = 1
+        while f"{nm}__{k}" in names:
+            k += 1
+        names.add(f"{nm}__{k}")
+        return f"{nm}__{k}"
+
+    def instantiate(call, h):
+        if isinstance(h, ast.AsyncFunctionDef) or h.args.vararg or h.args.kwarg or _has(h.body, (ast.Yield, ast.YieldFrom, ast.Await, ast.Global, ast.Nonlocal) + source.FUNC_TYPES + (ast.ClassDef,)):
+            raise _NotInlinable("generator / nested scope / variadic helper")
+        if any(isinstance(a, ast.Starred) for a in call.args) or any(k.arg is None for k in call.keywords):
+            raise _NotInlinable("starred arguments")
+        if any(dotted(d_.func if isinstance(d_, ast.Call) else d_) not in ("staticmethod", "classmethod") for d_ in h.decorator_list):
+            raise _NotInlinable("decorated helper")
+        bound = dict(source.bind_args(call, h))
+        pos = h.args.posonlyargs + h.args.args
+        for p, d in list(zip(pos[len(pos) - len(h.args.defaults):], h.args.defaults)) + [(p, d) for p, d in zip(h.args.kwonlyargs, h.args.kw_defaults) if d is not None]:
+            bound.setdefault(p.arg, d)
+        params = [a.arg for a in pos + h.args.kwonlyargs if a.arg not in ("self", "cls")]
+        if any(p not in bound for p in params) or len(call.args) + len(call.keywords) > len(params):
+            raise _NotInlinable("arguments do not bind")
+        body = _copy_ast(_own_body(h))
+        stored = {x.id for s in body for x in ast.walk(s) if isinstance(x, ast.Name) and isinstance(x.ctx, (ast.Store, ast.Del))}
+        mapping, pre = {}, []
+        for p in params:
+            a = bound[p]
+            if (isinstance(a, (ast.Name, ast.Constant)) or dotted(a) is not None) and p not in stored:
+                mapping[p] = a
+            else:
+                nm = p if p not in names else fresh(p)
+                names.add(nm)
+                pre.append(ast.copy_location(ast.Assign(targets=[ast.Name(id=nm, ctx=ast.Store())], value=_copy_ast(a)), call))
+                mapping[p] = ast.Name(id=nm, ctx=ast.Load())
+        for nm in sorted(stored - set(params)):
+            if nm in names:
+                mapping[nm] = ast.Name(id=fresh(nm), ctx=ast.Load())
+            else:
+                names.add(nm)
+
+        class S(ast.NodeTransformer):
+            def visit_Name(self, n):
+                m = mapping.get(n.id)
+                if m is None:
+                    return n
+                if isinstance(n.ctx, ast.Load):
+                    return ast.copy_location(_copy_ast(m), n)
+                return ast.copy_location(ast.Name(id=m.id, ctx=n.ctx), n)  # stores only hit renamed locals / re-bound parameters: both map to names
+
+        return pre, [S().visit(s) for s in body]
+
+    def tails(stmts, k):
+        """the statement list with every (tail) return replaced by k(value); k(None) where the list completes normally"""
+        out = []
+        for i, s in enumerate(stmts):
+            if isinstance(s, ast.Return):
+                return out + k(s.value)
+            if _has(s, ast.Return):
+                if not isinstance(s, ast.If) or i != len(stmts) - 1:
+                    raise _NotInlinable("return that is not in tail position")
+                s.body = tails(s.body, k) or [ast.copy_location(ast.Pass(), s)]
+                s.orelse = tails(s.orelse, k)
+                return out + [s]
+            out.append(s)
+        return out + k(None)
+
+    def expr_helpers(s, d):
+        """substitute helpers that only return an expression, in the expressions of the statement itself (not in nested blocks)"""
+        class E(ast.NodeTransformer):
+            def visit_Call(self, c):
+                self.generic_visit(c)
+                h = resolve(c)
+                if h is None or d <= 0:
+                    return c
+                try:
+                    ob_ = _own_body(h)
+                    if len(ob_) != 1 or not isinstance(ob_[0], ast.Return) or ob_[0].value is None:
+                        return c
+                    pre, body = instantiate(c, h)
+                    if pre:
+                        return c
+                except _NotInlinable:
+                    return c
+                expanded.add(id(h))
+                return ast.copy_location(body[0].value, c)
+
+        for fld, v in list(ast.iter_fields(s)):
+            if isinstance(v, ast.expr):
+                setattr(s, fld, E().visit(v))
+            elif isinstance(v, list) and v and not isinstance(v[0], (ast.stmt, ast.ExceptHandler)) and fld != "decorator_list":
+                setattr(s, fld, [E().visit(x) if isinstance(x, ast.AST) else x for x in v])
+
+    def stmt_form(s):
+        """(call, continuation) if the statement is one of the expandable call forms"""
+        if isinstance(s, ast.Expr) and isinstance(s.value, ast.Call):
+            return s.value, lambda v: [ast.copy_location(ast.Expr(value=v), s)] if v is not None and _has(ast.Expr(value=v), ast.Call) else []
+        if isinstance(s, ast.Assign) and isinstance(s.value, ast.Call) and len(s.targets) == 1:
+            return s.value, lambda v: [ast.copy_location(ast.Assign(targets=_copy_ast(s.targets), value=v if v is not None else ast.Constant(value=None)), s)]
+        if isinstance(s, ast.Return) and isinstance(s.value, ast.Call):
+            return s.value, lambda v: [ast.copy_location(ast.Return(value=v), s)]
+        if isinstance(s, ast.If):
+            t, neg = s.test, False
+            if isinstance(t, ast.UnaryOp) and isinstance(t.op, ast.Not):
+                t, neg = t.operand, True
+            if isinstance(t, ast.Call):
+                def k(v):
+                    v = v if v is not None else ast.Constant(value=None)
+                    if isinstance(v, ast.Constant):
+                        return _copy_ast(s.orelse if bool(v.value) == neg else s.body)
+                    new = ast.copy_location(ast.If(test=ast.UnaryOp(op=ast.Not(), operand=v) if neg else v, body=_copy_ast(s.body), orelse=_copy_ast(s.orelse)), s)
+                    if getattr(s, "_synthetic_arm", None):
+                        new._synthetic_arm = s._synthetic_arm
+                    return [new]
+                return t, k
+        return None
+
+    def is_helper_call(e):
+        if isinstance(e, ast.UnaryOp) and isinstance(e.op, ast.Not):
+            e = e.operand
+        return isinstance(e, ast.Call) and resolve(e) is not None
+
+    def prenorm(s):
+        """statements equivalent to s in which a helper call that is an operand of the and / or of an if-test, or the iterable of a loop, stands alone (so that it is one of the
+        expandable forms): `if A or H(): X else: Z` -> `if A: X else: (if H(): X else: Z)`, `if A and H(): X else: Z` -> `if A: (if H(): X else: Z) else: Z`,
+        `for v in H(): B` -> `t = H(); for v in t: B`."""
+        if isinstance(s, ast.For) and is_helper_call(s.iter) and isinstance(s.iter, ast.Call):
+            t = fresh("it")
+            first = ast.copy_location(ast.Assign(targets=[ast.Name(id=t, ctx=ast.Store())], value=s.iter), s)
+            s.iter = ast.copy_location(ast.Name(id=t, ctx=ast.Load()), s.iter)
+            return [first, s]
+        if isinstance(s, ast.If) and isinstance(s.test, ast.BoolOp) and any(is_helper_call(v) for v in s.test.values):
+            vals, is_or = s.test.values, isinstance(s.test.op, ast.Or)
+            i = next(j for j, v in enumerate(vals) if is_helper_call(v))
+
+            def group(vs):
+                return vs[0] if len(vs) == 1 else ast.copy_location(ast.BoolOp(op=type(s.test.op)(), values=vs), s.test)
+
+            def mk(test, body, orelse):
+                return ast.copy_location(ast.If(test=test, body=body or [ast.copy_location(ast.Pass(), s)], orelse=orelse), s)
+
+            X, Z = s.body, s.orelse
+            inner = (mk(group(vals[i + 1:]), _copy_ast(X), _copy_ast(Z)) if vals[i + 1:] else None)
+            if is_or:
+                mid = mk(vals[i], _copy_ast(X), [inner] if inner is not None else _copy_ast(Z))
+                return [mk(group(vals[:i]), _copy_ast(X), [mid])] if vals[:i] else [mid]
+            mid = mk(vals[i], [inner] if inner is not None else _copy_ast(X), _copy_ast(Z))
+            return [mk(group(vals[:i]), [mid], _copy_ast(Z))] if vals[:i] else [mid]
+        return None
+
+    def block(stmts, d):
+        out = []
+        for s in stmts:
+            expr_helpers(s, d)
+            pre_ = prenorm(s) if d > 0 else None
+            if pre_ is not None:
+                out += block(pre_, d)
+                continue
+            form = stmt_form(s) if d > 0 else None
+            h = resolve(form[0]) if form else None
+            if h is not None:
+                try:
+                    pre, body = instantiate(form[0], h)
+                    new = pre + tails(body, form[1])
+                    expanded.add(id(h))
+                    out += block(new, d - 1)
+                    continue
+                except _NotInlinable:
+                    failed.add(id(h))
+            for fld in ("body", "orelse", "finalbody"):
+                b = getattr(s, fld, None)
+                if isinstance(b, list) and b and isinstance(b[0], ast.stmt):
+                    setattr(s, fld, block(b, d))
+            for hd in getattr(s, "handlers", []) or []:
+                hd.body = block(hd.body, d)
+            out.append(s)
+        return out
+
+    f.body = block(f.body, depth) or [ast.Pass()]
+    for x in ast.walk(f):
+        if isinstance(x, ast.Call) and resolve(x) is not None:
+            failed.add(id(resolve(x)))  # a call that is still there was not expanded
+    ast.fix_missing_locations(f)
+    source.set_parents(f)
+    f._parent = parent if parent is not None else source.parent(root)
+    mod = getattr(root, "_module", None)
+    for x in ast.walk(f):
+        x._module = mod
+    return f, expanded, failed
+
+
+class _CannotRun(Exception):
+    """the extracted code uses a construct the value interpreter does not model: the verdict is 'not recognised'"""
+
+
+class _Raised(Exception):
+    def __init__(self, text):
+        super().__init__(text)
+        self.text = text
+
+
+class _Cls:
+    """a class of the analysed package as a VALUE (never instantiated for real)"""
+
+    def __init__(self, name, node=None):
+        self.name, self.node = name, node
+
+    def __repr__(self):
+        return self.name
+
+
+class _Inst:
+    """the construction of a package class on evaluated arguments"""
+
+    def __init__(self, cls, args, kwargs):
+        self.cls, self.args, self.kwargs = cls, list(args), dict(kwargs)
+
+    def __eq__(self, other):
+        return isinstance(other, _Inst) and (self.cls.name, self.args, self.kwargs) == (other.cls.name, other.args, other.kwargs)
+
+    def __hash__(self):
+        return hash(self.cls.name)
+
+    def __repr__(self):
+        return f"{self.cls.name}({', '.join([repr(a) for a in self.args] + [f'{k}={v!r}' for k, v in self.kwargs.items()])})"
+
+
+_NOHOOK = object()
+
+
+class _Interp:
+    """Interprets small EXTRACTED functions on representative values (strings, lists, records): if / for / assignments (also unpacking and self.<attr>) / append / return / raise /
+    continue / break; expressions through minieval (operands evaluated here first, so that calls nested in them are seen); calls of methods of the same class and of functions of the
+    same module are followed; a call of a package class yields an _Inst. Module-level names (tables of classes, import aliases of package modules) are resolved from the module.
+    Nothing of the repository is imported or executed. Anything not modelled raises _CannotRun / minieval.CannotEval (=> 'not recognised', never a verdict)."""
+
+    PURE = {**{m: str for m in ("split", "rsplit", "partition", "rpartition", "strip", "lstrip", "rstrip", "lower", "upper", "casefold", "title", "capitalize", "startswith", "endswith",
+                                "removeprefix", "removesuffix", "find", "rfind", "replace", "isdigit", "isalpha", "isalnum", "splitlines", "join")},
+            "index": (str, list, tuple), "count": (str, list, tuple), "copy": (list, dict, set), "items": dict, "keys": dict, "values": dict}
+
+    def __init__(self, repo, special=None, fuel=20000):
+        self.repo, self.special, self.fuel, self.depth = repo, special, fuel, 0
+        self._glob = {}
+
+    # -- names ------------------------------------------------------------------------------------------------------------------------------------------
+    def frame(self, mod, cls=None, self_value=None, **binds):
+        env = {"__mod__": mod, "__cls__": cls}
+        if self_value is not None:
+            env["self"] = self_value
+        env.update(binds)
+        return env
+
+    def class_consts(self, mod, cls):
+        """class-level simple assignments as fields (self.TABLE reads them)"""
+        out = {}
+        for st in cls.body:
+            if isinstance(st, ast.Assign) and len(st.targets) == 1 and isinstance(st.targets[0], ast.Name):
+                try:
+                    out[st.targets[0].id] = self.val(st.value, self.frame(mod, cls))
+                except (minieval.CannotEval, _CannotRun, _Raised):
+                    pass
+        return out
+
+    def module_record(self, dotted_name):
+        for rel in (dotted_name.replace(".", "/") + ".py", dotted_name.replace(".", "/") + "/__init__.py"):
+            if self.repo.exists(rel):
+                m = self.repo.module(rel)
+                return minieval.Record(**{n.name: _Cls(n.name, n) for n in m.tree.body if isinstance(n, ast.ClassDef)})
+        return None
+
+    def global_value(self, name, mod):
+        key = (mod.relpath, name)
+        if key in self._glob:
+            if self._glob[key] is _NOHOOK:
+                raise minieval.CannotEval(f"unbound name {name}")
+            return self._glob[key]
+        self._glob[key] = _NOHOOK  # cycle guard
+        val = _NOHOOK
+        defs = [n for n in mod.tree.body if (isinstance(n, ast.Assign) and any(isinstance(t, ast.Name) and t.id == name for t in n.targets)) or (isinstance(n, ast.ClassDef) and n.name == name)]
+        if len(defs) == 1 and isinstance(defs[0], ast.ClassDef):
+            val = _Cls(name, defs[0])
+        elif len(defs) == 1 and len(defs[0].targets) == 1:
+            try:
+                val = self.val(defs[0].value, self.frame(mod))
+            except (minieval.CannotEval, _CannotRun, _Raised):
+                val = _NOHOOK
+        elif not defs and name in mod.imports:
+            target = mod.imports[name]
+            rec = self.module_record(target)
+            if rec is not None:
+                val = rec
+            elif "." in target:
+                owner = self.module_record(target.rsplit(".", 1)[0])
+                if owner is not None and target.rsplit(".", 1)[1] in owner.fields:
+                    val = owner.fields[target.rsplit(".", 1)[1]]
+        self._glob[key] = val
+        if val is _NOHOOK:
+            raise minieval.CannotEval(f"unbound name {name}")
+        return val
+
+    # -- expressions ------------------------------------------------------------------------------------------------------------------------------------
+    def _tick(self):
+        self.fuel -= 1
+        if self.fuel < 0:
+            raise _CannotRun("too many steps")
+
+    def val(self, e, env):
+        self._tick()
+        if isinstance(e, ast.Constant):
+            return e.value
+        if isinstance(e, ast.Name):
+            if e.id in env:
+                return env[e.id]
+            return self.global_value(e.id, env["__mod__"])
+        if isinstance(e, ast.BoolOp):
+            r = None
+            for v in e.values:
+                r = self.val(v, env)
+                if bool(r) != isinstance(e.op, ast.And):
+                    return r
+            return r
+        if isinstance(e, ast.IfExp):
+            return self.val(e.body, env) if self.val(e.test, env) else self.val(e.orelse, env)
+        if isinstance(e, ast.UnaryOp) and isinstance(e.op, ast.Not):
+            return not self.val(e.operand, env)
+        if isinstance(e, ast.NamedExpr) and isinstance(e.target, ast.Name):
+            env[e.target.id] = self.val(e.value, env)
+            return env[e.target.id]
+        if isinstance(e, (ast.ListComp, ast.GeneratorExp, ast.SetComp)):
+            out = []
+
+            def rec(i, env_):
+                if i == len(e.generators):
+                    out.append(self.val(e.elt, env_))
+                    return
+                g = e.generators[i]
+                if g.is_async:
+                    raise minieval.CannotEval("async comprehension")
+                for v in self.iterable(self.val(g.iter, env_), g.iter):
+                    env2 = dict(env_)
+                    self.bind(g.target, v, env2)
+                    if all(self.val(c, env2) for c in g.ifs):
+                        rec(i + 1, env2)
+
+            rec(0, env)
+            return set(out) if isinstance(e, ast.SetComp) else out
+        if isinstance(e, ast.JoinedStr):
+            try:
+                return minieval.ev(e, {k: v for k, v in env.items() if not k.startswith("__")})
+            except (TypeError, ValueError, AttributeError, KeyError, IndexError) as x:
+                raise minieval.CannotEval(f"{short(e, 50)}: {type(x).__name__}")
+        if isinstance(e, ast.Call):
+            r = self.call(e, env)
+            if r is not _NOHOOK:
+                return r
+        return self._shallow(e, env)
+
+    def iterable(self, v, node):
+        if isinstance(v, dict):
+            return list(v)
+        if isinstance(v, (list, tuple, set, frozenset, str, range)):
+            return list(v)
+        raise minieval.CannotEval(f"iteration over {short(node, 40)}")
+
+    def _shallow(self, e, env):
+        """evaluate the operands here, the node itself through minieval on placeholders"""
+        ph = {}
+
+        def sub(c):
+            if isinstance(c, ast.Name):
+                if c.id not in env:
+                    try:
+                        ph[c.id] = self.global_value(c.id, env["__mod__"])
+                    except minieval.CannotEval:
+                        pass  # builtins (len, str, isinstance's type names) are minieval's business
+                return c
+            if isinstance(c, ast.expr) and not isinstance(c, (ast.Constant, ast.Slice, ast.Starred)):
+                k = f"__ph{len(ph)}"
+                ph[k] = self.val(c, env)
+                return ast.Name(id=k, ctx=ast.Load())
+            return c
+
+        fields = {}
+        for fld, v in ast.iter_fields(e):
+            if isinstance(e, ast.Call) and fld == "func":
+                fields[fld] = ast.Attribute(value=sub(v.value), attr=v.attr, ctx=ast.Load()) if isinstance(v, ast.Attribute) else sub(v) if not isinstance(v, ast.Name) else v
+            elif isinstance(e, ast.Call) and fld == "keywords":
+                fields[fld] = [ast.keyword(arg=k.arg, value=sub(k.value)) for k in v]
+            elif isinstance(e, ast.Call) and fld == "args" and dotted(e.func) == "isinstance" and len(v) == 2:
+                fields[fld] = [sub(v[0]), v[1]]
+            elif isinstance(v, list):
+                fields[fld] = [sub(x) if isinstance(x, ast.AST) else x for x in v]
+            elif isinstance(v, ast.AST):
+                fields[fld] = sub(v)
+            else:
+                fields[fld] = v
+        new = ast.copy_location(type(e)(**fields), e)
+        base = {k: v for k, v in env.items() if not k.startswith("__")}
+        base.update(ph)
+        try:
+            return minieval.ev(new, base)
+        except (TypeError, ValueError, AttributeError, KeyError, IndexError, ArithmeticError) as x:  # an operation the VALUES do not support (len(None), ...): not modelled
+            raise minieval.CannotEval(f"{short(e, 50)}: {type(x).__name__}")
+
+    def call(self, e, env):
+        if self.special is not None:
+            r = self.special(e, env, self)
+            if r is not _NOHOOK:
+                return r
+        h = self.resolve(e, env)
+        if h is not None:
+            return self.invoke(h[0], e, env, h[1])
+        if isinstance(e.func, ast.Attribute) and e.func.attr in self.PURE and not e.keywords and not any(isinstance(a, ast.Starred) for a in e.args):
+            # side-effect free methods of builtin strings / lists / dicts are applied to the VALUES (no code of the repository runs)
+            try:
+                recv = self.val(e.func.value, env)
+            except minieval.CannotEval:
+                recv = _NOHOOK
+            if isinstance(recv, self.PURE[e.func.attr]) and not isinstance(recv, bool):
+                args = [self.val(a, env) for a in e.args]
+                if all(isinstance(a, (str, int, type(None), tuple)) and not isinstance(a, bool) for a in args):
+                    try:
+                        r = getattr(recv, e.func.attr)(*args)
+                    except (ValueError, IndexError, KeyError, TypeError) as x:
+                        raise _Raised(f"{type(x).__name__} in {short(e, 50)}")
+                    return list(r) if e.func.attr in ("items", "keys", "values") else r
+        f = None
+        if isinstance(e.func, (ast.Name, ast.Attribute)):
+            try:
+                f = self.val(e.func, env)
+            except minieval.CannotEval:
+                f = None
+        if isinstance(f, _Cls):
+            if any(isinstance(a, ast.Starred) for a in e.args) or any(k.arg is None for k in e.keywords):
+                raise minieval.CannotEval("starred arguments")
+            return _Inst(f, [self.val(a, env) for a in e.args], {k.arg: self.val(k.value, env) for k in e.keywords})
+        return _NOHOOK
+
+    def resolve(self, e, env):
+        """(function, is method) for self.m(...) of the current class and f(...) of the current module"""
+        mod, cls = env.get("__mod__"), env.get("__cls__")
+        if isinstance(e.func, ast.Attribute) and isinstance(e.func.value, ast.Name) and e.func.value.id in ("self", "cls") and cls is not None:
+            m = next((n for n in cls.body if isinstance(n, source.FUNC_TYPES) and n.name == e.func.attr), None)
+            return (m, True) if m is not None else None
+        if isinstance(e.func, ast.Name) and e.func.id not in env and mod is not None:
+            m = next((n for n in mod.tree.body if isinstance(n, source.FUNC_TYPES) and n.name == e.func.id), None)
+            return (m, False) if m is not None else None
+        return None
+
+    def invoke(self, func, call, env, method, argv=None):
+        self.depth += 1
+        try:
+            if self.depth > 8:
+                raise _CannotRun("call depth")
+            new = self.frame(env["__mod__"], env.get("__cls__") if method else None, env.get("self") if method else None)
+            if argv is None:
+                if any(isinstance(a, ast.Starred) for a in call.args) or any(k.arg is None for k in call.keywords):
+                    raise minieval.CannotEval("starred arguments")
+                argv = {}
+                for p, a in source.bind_args(call, func).items():
+                    try:
+                        argv[p] = self.val(a, env)
+                    except minieval.CannotEval:
+                        pass  # an opaque argument (a config object, a logger): unbound in the callee - only a USE of its value there stops the interpretation
+            new.update(argv)
+            pos = func.args.posonlyargs + func.args.args
+            for p, d in list(zip(pos[len(pos) - len(func.args.defaults):], func.args.defaults)) + [(p, d) for p, d in zip(func.args.kwonlyargs, func.args.kw_defaults) if d is not None]:
+                if p.arg not in new:
+                    new[p.arg] = self.val(d, self.frame(env["__mod__"]))
+            gen = _has(func.body, (ast.Yield, ast.YieldFrom))
+            if gen:
+                new["__yield__"] = []
+            kind, v = self.run(func.body, new)
+            if kind == "raise":
+                raise _Raised(v)
+            if gen:
+                return new["__yield__"]
+            return v if kind == "return" else None
+        finally:
+            self.depth -= 1
+
+    # -- statements -------------------------------------------------------------------------------------------------------------------------------------
+    def bind(self, t, v, env):
+        if isinstance(t, ast.Name):
+            env[t.id] = v
+        elif isinstance(t, (ast.Tuple, ast.List)) and not any(isinstance(x, ast.Starred) for x in t.elts):
+            if not isinstance(v, (list, tuple)):
+                raise _CannotRun(f"unpacking of {type(v).__name__}")
+            if len(v) != len(t.elts):
+                raise _Raised(f"ValueError (unpacking {len(v)} value(s) into {len(t.elts)} name(s))")
+            for x, y in zip(t.elts, v):
+                self.bind(x, y, env)
+        elif isinstance(t, ast.Attribute):
+            o = self.val(t.value, env)
+            if not isinstance(o, minieval.Record):
+                raise _CannotRun(f"store to {short(t, 40)}")
+            o.fields[t.attr] = v
+        elif isinstance(t, ast.Subscript):
+            o = self.val(t.value, env)
+            if not isinstance(o, (dict, list)):
+                raise _CannotRun(f"store to {short(t, 40)}")
+            try:
+                o[self.val(t.slice, env)] = v
+            except (IndexError, TypeError) as x:
+                raise _CannotRun(f"store to {short(t, 40)}: {type(x).__name__}")
+        else:
+            raise _CannotRun(f"store to {short(t, 40)}")
+
+    def unbind(self, t, env):
+        if isinstance(t, ast.Name):
+            env.pop(t.id, None)
+        elif isinstance(t, (ast.Tuple, ast.List)):
+            for x in t.elts:
+                self.unbind(x, env)
+        elif isinstance(t, ast.Attribute):
+            try:
+                o = self.val(t.value, env)
+            except minieval.CannotEval:
+                return
+            if isinstance(o, minieval.Record):
+                o.fields.pop(t.attr, None)
+        elif isinstance(t, ast.Subscript):
+            raise _CannotRun(f"store of a value that is not evaluable to {short(t, 40)}")
+
+    def run(self, stmts, env):
+        """(kind, value): return / raise (text) / continue / break / fallthrough"""
+        for s in stmts:
+            self._tick()
+            try:
+                r = self.stmt(s, env)
+            except _Raised as x:
+                return "raise", x.text
+            if r is not None:
+                return r
+        return "fallthrough", None
+
+    def test(self, e, env):
+        try:
+            return bool(self.val(e, env))
+        except minieval.CannotEval as x:
+            raise _CannotRun(f"condition `{short(e, 60)}` is not evaluable ({x})")
+
+    def stmt(self, s, env):
+        if is_logging_stmt(s) or isinstance(s, (ast.Pass, ast.Import, ast.ImportFrom, ast.Assert)):
+            return None
+        if isinstance(s, ast.Expr):
+            v = s.value
+            if isinstance(v, ast.Constant):
+                return None
+            if isinstance(v, (ast.Yield, ast.YieldFrom)):
+                if v.value is None:
+                    raise _CannotRun("bare yield")
+                try:
+                    y = self.val(v.value, env)
+                except minieval.CannotEval as x:
+                    raise _CannotRun(f"yielded value not evaluable ({x})")
+                env["__yield__"] += self.iterable(y, v.value) if isinstance(v, ast.YieldFrom) else [y]
+                return None
+            if isinstance(v, ast.Call) and isinstance(v.func, ast.Attribute) and self.resolve(v, env) is None:
+                try:
+                    recv = self.val(v.func.value, env)
+                except minieval.CannotEval:
+                    return None  # a call on something that is not tracked (super().__init__(), console output): no effect on the tracked values
+                if isinstance(recv, (list, set, dict)):
+                    try:
+                        args = [self.val(a, env) for a in v.args]
+                    except minieval.CannotEval as x:
+                        raise _CannotRun(f"`{short(v, 60)}`: argument not evaluable ({x})")
+                    m = v.func.attr
+                    if isinstance(recv, list) and m == "append" and len(args) == 1:
+                        recv.append(args[0])
+                    elif isinstance(recv, list) and m == "extend" and len(args) == 1:
+                        recv.extend(self.iterable(args[0], v.args[0]))
+                    elif isinstance(recv, list) and m == "insert" and len(args) == 2 and isinstance(args[0], int):
+                        recv.insert(args[0], args[1])
+                    elif isinstance(recv, list) and m == "remove" and len(args) == 1:
+                        if not any(x is args[0] or x == args[0] for x in recv):
+                            raise _Raised("ValueError (list.remove(x): x not in list)")
+                        recv.remove(args[0])
+                    elif isinstance(recv, list) and m == "pop" and len(args) <= 1 and all(isinstance(a, int) for a in args):
+                        if not recv or (args and not -len(recv) <= args[0] < len(recv)):
+                            raise _Raised("IndexError (pop)")
+                        recv.pop(*args)
+                    elif isinstance(recv, set) and m == "add" and len(args) == 1:
+                        recv.add(args[0])
+                    elif isinstance(recv, dict) and m == "setdefault" and 1 <= len(args) <= 2:
+                        recv.setdefault(*args)
+                    else:
+                        raise _CannotRun(f"`{short(v, 60)}`: mutation not modelled")
+                    return None
+                if isinstance(recv, (minieval.Record, _Inst)):
+                    raise _CannotRun(f"`{short(v, 60)}`: method call on a tracked object")
+                return None
+            try:
+                self.val(v, env)
+            except minieval.CannotEval:
+                pass
+            return None
+        if isinstance(s, ast.Assign):
+            try:
+                v = self.val(s.value, env)
+            except minieval.CannotEval:
+                for t in s.targets:
+                    self.unbind(t, env)
+                return None
+            for t in s.targets:
+                self.bind(t, v, env)
+            return None
+        if isinstance(s, ast.AugAssign):
+            try:
+                cur = self.val(s.target, env)
+                v = self.val(s.value, env)
+                if isinstance(s.op, ast.Add) and isinstance(cur, list):
+                    cur.extend(self.iterable(v, s.value))
+                    return None
+                new = minieval.ev(ast.BinOp(left=ast.Name(id="a", ctx=ast.Load()), op=s.op, right=ast.Name(id="b", ctx=ast.Load())), {"a": cur, "b": v})
+            except (minieval.CannotEval, KeyError):
+                self.unbind(s.target, env)
+                return None
+            self.bind(s.target, new, env)
+            return None
+        if isinstance(s, ast.If):
+            return self._arm(s.body if self.test(s.test, env) else s.orelse, env)
+        if isinstance(s, ast.For):
+            try:
+                items = self.iterable(self.val(s.iter, env), s.iter)
+            except minieval.CannotEval as x:
+                raise _CannotRun(f"loop over `{short(s.iter, 40)}` is not evaluable ({x})")
+            broke = False
+            for v in items:
+                self.bind(s.target, v, env)
+                r = self._arm(s.body, env)
+                if r is not None:
+                    if r[0] == "continue":
+                        continue
+                    if r[0] == "break":
+                        broke = True
+                        break
+                    return r
+            return self._arm(s.orelse, env) if s.orelse and not broke else None
+        if isinstance(s, ast.Return):
+            if s.value is None:
+                return "return", None
+            try:
+                return "return", self.val(s.value, env)
+            except minieval.CannotEval as x:
+                raise _CannotRun(f"returned value `{short(s.value, 60)}` is not evaluable ({x})")
+        if isinstance(s, ast.Raise):
+            return "raise", short(s.exc, 80) if s.exc is not None else "re-raise"
+        if isinstance(s, ast.Continue):
+            return "continue", None
+        if isinstance(s, ast.Break):
+            return "break", None
+        raise _CannotRun(f"statement kind {type(s).__name__} at line {getattr(s, 'lineno', '?')}")
+
+    def _arm(self, stmts, env):
+        r = self.run(stmts, env)
+        return None if r[0] == "fallthrough" else r
+
+
 def run(chk):
     repo = chk.repo
     ldr, trk, drv = repo.module(_L), repo.module(_T), repo.module(_D)
     chk.use(ldr, trk, drv, _S)
     chk.explanation = (
-        "Decides the filter as a finite decision function: the match routine abstractly interpreted over {exclude} x {parallel} x {some filter matches}; filter-spec parsing "
-        "(name / type: / tag:); match semantics of the three filter classes and of parallel elements (exists-leaf), with tags normalised to a list; every site that can shrink a "
-        "parallel element is followed by an emptiness test whose empty edge removes the element; the processor only removes (no stores on tasks, no mutation while iterating); "
-        "consumer agreement (driver reports one entry per step; client floor of 1 for an emptied schedule); the removal of a leaf consults the leaf's completing role "
-        "(completed-by), the attribute being derived from the track reader's data flow."
+        "Decides the filter as a finite decision function: the match routine (found by role: the method of the processor that asks <element>.matches(<filter>) for the hook; "
+        "helpers extracted from it are read with it) evaluated over {exclude} x {parallel} x {vectors of per-filter match results}, the meaning of the mode attribute being derived "
+        "from what the constructor stores; the constructor, the spec parser, the three filter classes, Task.__init__ (tags), Task.matches and remove_task are INTERPRETED on "
+        "representative values (extracted statements and expressions only, helpers of the same class / module followed, nothing of the repository is executed): option lists -> "
+        "filters built and mode set, filter(v).matches(task) over a grid of tasks, list of three elements -> list after remove_task; the hook is analysed with the helpers "
+        "extracted from it expanded in place: every site that can shrink a parallel element (remove_task or a filtering store) is followed by an emptiness test whose empty edge "
+        "removes the element; the processor only removes (no stores on objects of the track - by data flow from the parameters -, no mutation while iterating, removal lists fresh "
+        "per challenge / element, an element is queued for removal under the match routine and nothing else); consumer agreement (driver reports one entry per step; client floor "
+        "of 1 for an emptied schedule); the removal of a leaf consults the leaf's completing role (completed-by), the attribute being derived from the track reader's data flow."
     )
     chk.not_decided = "an end-to-end race on the filtered track."
     P = ldr.cls("TaskFilterTrackProcessor")
     pm = ldr.methods(P)
-    fo = pm.get("_filter_out_match")
     oa = pm.get("on_after_load_track")
-    ff = pm.get("_filters_from_filtered_tasks")
     init = pm.get("__init__")
-    if not all([fo, oa, ff, init]):
-        raise AnchorMissing("TaskFilterTrackProcessor methods")
+    if oa is None or init is None:
+        raise AnchorMissing("TaskFilterTrackProcessor.__init__ / on_after_load_track")
+    modfuncs = {n.name: n for n in ldr.tree.body if isinstance(n, source.FUNC_TYPES)}
+
+    def helper_of(call):
+        """the method of the processor / function of the loader module that a call names (decided on the shape of the callee expression only, so it also works on copies)"""
+        if isinstance(call.func, ast.Attribute) and isinstance(call.func.value, ast.Name) and call.func.value.id in ("self", "cls"):
+            return pm.get(call.func.attr)
+        if isinstance(call.func, ast.Name):
+            return modfuncs.get(call.func.id)
+        return None
+
+    def pclosure(f):
+        """f and the helpers (methods of the processor, functions of the module) reachable from it"""
+        seen, todo = [], [f]
+        while todo:
+            g = todo.pop()
+            if any(g is s_ for s_ in seen):
+                continue
+            seen.append(g)
+            todo += [h for x in ast.walk(g) if isinstance(x, ast.Call) for h in [helper_of(x)] if h is not None]
+        return seen
+
+    # the MATCH ROUTINE by role: the method reachable from the hook that asks `<its parameter>.matches(<filter>)` (itself or through its own helpers) and neither walks a schedule
+    # nor removes anything (those are the drivers of the filtering, not the predicate); the outermost one if helpers were extracted from it
+    def asks_matches(m):
+        ps = [p_ for p_ in params_of(m) if p_ not in ("self", "cls")]
+        return any(isinstance(c, ast.Call) and isinstance(c.func, ast.Attribute) and c.func.attr == "matches" and isinstance(c.func.value, ast.Name) and c.func.value.id in ps for c in ast.walk(m))
+
+    def drives(m):
+        return any((isinstance(x, ast.Call) and last_attr(x.func) in ("remove_task", "remove")) or (isinstance(x, ast.Attribute) and x.attr in ("schedule", "challenges")) for x in ast.walk(m))
+
+    mcands = [m for m in pclosure(oa) if m is not oa and pm.get(m.name) is m and len(params_of(m)) >= 2 and any(asks_matches(g) for g in pclosure(m)) and not any(drives(g) for g in pclosure(m))]
+    mtop = [m for m in mcands if not any(m is g for o_ in mcands if o_ is not m for g in pclosure(o_))]
+    fo = mtop[0] if len(mtop) == 1 else pm.get("_filter_out_match")
+    if fo is None:
+        raise AnchorMissing("the match routine of TaskFilterTrackProcessor (the method asking `<element>.matches(<filter>)` for the hook)")
+    fo_slice = pclosure(fo)
+    foX = inline_helpers(fo, lambda c: (lambda h: h if h is not None and h is not fo and h is not oa and h is not init else None)(helper_of(c)), parent=P)[0]
+    tp = params_of(fo)[1]
+    # the FILTERS attribute: the self attribute whose elements are handed to <element>.matches(...); the MODE attribute: the other self attribute the match routine reads
+    fattr = None
+    for g in [foX] + fo_slice[1:]:
+        for c in ast.walk(g):
+            if isinstance(c, ast.Call) and isinstance(c.func, ast.Attribute) and c.func.attr == "matches" and len(c.args) == 1 and isinstance(c.args[0], ast.Name):
+                for n in ast.walk(g):
+                    if isinstance(n, (ast.For, ast.comprehension)) and isinstance(n.target, ast.Name) and n.target.id == c.args[0].id and is_self_attr(strip_sel(n.iter)):
+                        fattr = fattr or strip_sel(n.iter).attr
+    if fattr is None:
+        raise AnchorMissing("the attribute holding the filters (iterated by the match routine, elements handed to <element>.matches)")
+    reads = {n.attr for g in [foX] + fo_slice[1:] for n in ast.walk(g) if is_self_attr(n) and isinstance(n.ctx, ast.Load) and "logger" not in n.attr.lower()
+             and not (isinstance(source.parent(n), ast.Call) and source.parent(n).func is n)} - {fattr}
+    mattr = next(iter(reads)) if len(reads) == 1 else ("exclude" if "exclude" in reads else None)
+    if mattr is None:
+        raise AnchorMissing(f"the attribute holding the include / exclude mode (the match routine reads {sorted(reads)})")
+    ff = pm.get("_filters_from_filtered_tasks") or next((h for c in walk_body(init) if isinstance(c, ast.Call) for h in [helper_of(c)] if h is not None), None) or init
+
+    # ---- the constructor INTERPRETED on the two option values: which filters are built, which mode is set ------------------------------------------------------
+    OPTS = ("include.tasks", "exclude.tasks")
+
+    def init_state(inc, exc):
+        """(kind, text, fields of self) after TaskFilterTrackProcessor.__init__ for the option values include.tasks=inc / exclude.tasks=exc"""
+        given = dict(zip(OPTS, (inc, exc)))
+
+        def special(call, env, it):
+            if helper_of(call) is not None:
+                return _NOHOOK  # a helper of the processor that reads the option: followed, the read inside it is recognised
+            keys = []
+            for a in list(call.args) + [k.value for k in call.keywords]:
+                try:
+                    v_ = a.value if isinstance(a, ast.Constant) else (it.val(a, env) if isinstance(a, ast.Name) else None)
+                except minieval.CannotEval:
+                    v_ = None
+                if isinstance(v_, str) and v_ in given:
+                    keys.append(v_)
+            if len(keys) == 1:
+                return list(given[keys[0]]) if isinstance(given[keys[0]], list) else given[keys[0]]
+            return _NOHOOK
+
+        it = _Interp(repo, special)
+        me = minieval.Record(**it.class_consts(ldr, P))
+        kind, v = it.run(init.body, it.frame(ldr, P, me))
+        return kind, v, me.fields
+
+    def built(fields):
+        """the filters as [(class name, constructor argument)]"""
+        fl = fields.get(fattr, _NOHOOK)
+        if fl is _NOHOOK:
+            raise _CannotRun(f"self.{fattr} is not stored / not evaluable")
+        if fl is None or isinstance(fl, (list, tuple, set, frozenset)):
+            out = []
+            for x in (fl or []):
+                if not (isinstance(x, _Inst) and len(x.args) + len(x.kwargs) == 1):
+                    raise _CannotRun(f"self.{fattr} holds {x!r}")
+                out.append((x.cls.name, (x.args + list(x.kwargs.values()))[0]))
+            return out
+        raise _CannotRun(f"self.{fattr} is {fl!r}")
+
+    states, run_err = {}, None
+    try:
+        for k_ in itertools.product([True, False], repeat=2):
+            states[k_] = init_state(["i"] if k_[0] else None, ["e"] if k_[1] else None)
+    except (_CannotRun, minieval.CannotEval) as e:
+        run_err = str(e)
+    MISSING = object()
+    modeval = {k_: st[2].get(mattr, MISSING) for k_, st in states.items()}
+    a_inc, b_exc = modeval.get((True, False), MISSING), modeval.get((False, True), MISSING)
+    if run_err is None and MISSING not in (a_inc, b_exc) and bool(a_inc) != bool(b_exc):
+        mode_truth = {False: bool(a_inc), True: bool(b_exc)}  # truth of self.<mode> in include mode / in exclude mode, as the constructor sets it
+    elif mattr == "exclude":
+        mode_truth = {False: False, True: True}
+    else:
+        mode_truth = None
 
     # ---- O11.1 decision table ---------------------------------------------------------------------------------------------------------------
     chk.rule("O11.1", "match routine over {exclude, element is parallel, some filter matches}: leaf => remove == (match == exclude); parallel => remove == include and not match "
              "(otherwise descend); spec parsing: 1 part => name, type: => operation type, tag: => tag, else reject; filter classes compare the right fields; a parallel element "
              "matches iff some leaf matches; tags are a list", 16,
              "include keeps / exclude removes the wrong tasks for some filter list")
-    if len(params_of(fo)) < 2:
-        raise AnchorMissing("_filter_out_match(self, <task>): the task parameter")
-    tp = params_of(fo)[1]
     PARALLEL_TESTS = ("hasattr({0}, 'tasks')", "isinstance({0}, Parallel)", "isinstance({0}, track.Parallel)")
 
-    def atom(n, env):
-        if _pat.is_(n, *(p_.format(tp) for p_ in PARALLEL_TESTS)):
-            return env["parallel"]
-        t = u(n)
-        if t == "self.exclude":
-            return env["exclude"]
-        if isinstance(n, ast.Call) and u(n.func) == f"{tp}.matches":
-            return env["match"]
-        if _pat.is_(n, f"any({tp}.matches(V_f) for V_f in self.filters)", f"any([{tp}.matches(V_f) for V_f in self.filters])"):
-            return env["match"]
-        return None
+    def match_eval(f, tpn, env, vec, depth=0):
+        """what the match routine (or a helper of it applied to the element) returns for the abstract case env and the vector vec of per-filter results <element>.matches(<filter>)"""
+        def base(n):
+            if _pat.is_(n, *(p_.format(tpn) for p_ in PARALLEL_TESTS)):
+                return env["parallel"]
+            if is_self_attr(n, mattr):
+                if mode_truth is None:
+                    raise Unsupported(f"the meaning of self.{mattr} could not be derived from the constructor")
+                return mode_truth[env["exclude"]]
+            if isinstance(n, ast.Call) and depth < 3 and len(n.args) == 1 and not n.keywords and u(n.args[0]) == tpn:
+                h = helper_of(n)
+                if h is not None and h is not fo and pm.get(h.name) is h and len(params_of(h)) == 2:  # a helper of the processor applied to the element (not expandable in place)
+                    return match_eval(h, params_of(h)[1], env, vec, depth + 1)
+            return None
 
-    def on_stmt(s, env, b):
-        if isinstance(s, ast.For) and is_self_attr(s.iter, "filters"):
-            if not env["match"]:
-                return "skip"
-            out = decide(s.body, atom, env, b, on_stmt)
-            if out.kind == "return":
-                return out
-            raise Unsupported("filter loop body does not return on a match")
-        return None
+        return scan_eval(f.body, lambda e: is_self_attr(strip_sel(e), fattr),
+                         lambda n, var: isinstance(n, ast.Call) and isinstance(n.func, ast.Attribute) and n.func.attr == "matches" and u(n.func.value) == tpn and len(n.args) == 1 and u(n.args[0]) == var,
+                         base, vec)
 
     for exclude, parallel, match in itertools.product([False, True], repeat=3):
         env = {"exclude": exclude, "parallel": parallel, "match": match}
         inst = f"{'exclude' if exclude else 'include'}, {'parallel' if parallel else 'leaf'}, {'some filter matches' if match else 'no filter matches'}"
-        try:
-            out = decide(fo.body, atom, env, on_stmt=on_stmt)
-            if out.kind != "return":
-                chk.ob("O11.1", inst, False, fo, f"no decision ({out.text()})")
-                continue
-            got = bool_eval(out.value, lambda n: atom(n, env))
-        except (Unsupported, UnknownAtom) as e:
-            chk.unknown("O11.1", f"_filter_out_match is not a decision over (exclude, parallel, match): {e}", fo)
-            continue
         want = ((not exclude) and (not match)) if parallel else (match == exclude)
-        chk.ob("O11.1", inst, got == want, fo, f"removes: {got}; documented: {want}", key=f"{_L}:_filter_out_match:{exclude}|{parallel}|{match}")
-    # mode selection, decided over (include list given?, exclude list given?): which list feeds the filters and which mode is set
-    from sa import minieval
-    idefs = local_defs(init)
-    opt_role = {}
-    for nm, d in idefs.items():
-        if isinstance(d, ast.Call) and last_attr(d.func) == "opts":
-            for key, role in (("include.tasks", "inc"), ("exclude.tasks", "exc")):
-                if any(source.is_const(a_, key) for a_ in d.args):
-                    opt_role[nm] = role
-    chk.ob("O11.1", "include / exclude lists read from the options include.tasks / exclude.tasks", sorted(opt_role.values()) == ["exc", "inc"], init, f"{opt_role}")
-    ffc = [c for c in walk_body(init) if isinstance(c, ast.Call) and last_attr(c.func) == ff.name]
-    for inc_given, exc_given in itertools.product([True, False], repeat=2):
-        lists = {"inc": ["i"] if inc_given else None, "exc": ["e"] if exc_given else None}
-
-        def atom_i(n, env):
-            if isinstance(n, ast.Call) and last_attr(n.func) == "opts":
-                r_ = [role for key, role in (("include.tasks", "inc"), ("exclude.tasks", "exc")) if any(source.is_const(a_, key) for a_ in n.args)]
-                return bool(lists[r_[0]]) if r_ else None
-            try:
-                return bool(minieval.ev(n, {nm: lists[r] for nm, r in opt_role.items()}))
-            except minieval.CannotEval:
-                return None
-
         try:
-            out = decide(init.body, atom_i, {})
+            got_v = [(vec, match_eval(foX, tp, env, vec)) for vec in VECS if any(vec) == match]  # every vector of per-filter results with this `some filter matches`
         except (Unsupported, UnknownAtom) as e:
-            chk.unknown("O11.1", f"mode selection is not a decision over the two option lists: {e}", init)
-            break
-        bnd = getattr(out, "bindings", {})
-        mode = [e_ for e_ in out.effects if isinstance(e_, ast.Assign) and any(is_self_attr(t_, "exclude") for t_ in e_.targets)]
-        fed = source.inline_node(ffc[0].args[0], {}) if ffc and ffc[0].args else None
-        fed_t = u(bnd[fed.id]) if isinstance(fed, ast.Name) and bnd.get(fed.id) is not None else (u(fed) if fed is not None else None)
-        fed_role = next((r for key, r in (("include.tasks", "inc"), ("exclude.tasks", "exc")) if fed_t and f"'{key}'" in fed_t), None)
-        want_mode, want_role = (False, "inc") if inc_given else (True, "exc")
-        ok = len(mode) >= 1 and source.is_const(mode[-1].value, want_mode) and fed_role == want_role
-        chk.ob("O11.1", f"include list {'given' if inc_given else 'absent'}, exclude list {'given' if exc_given else 'absent'} => {'include' if inc_given else 'exclude'} mode on that list", ok, init,
-               f"exclude := {u(mode[-1].value) if mode else '?'}; filters built from {fed_t}", key=f"{_L}:TaskFilterTrackProcessor.__init__:mode:{inc_given}|{exc_given}")
-    # spec parsing, decided on VALUES: the item is split on ':' and handed on verbatim (case preserved)
-    if len(params_of(ff)) < 2:
-        raise AnchorMissing("_filters_from_filtered_tasks(self, <items>): the items parameter")
-    floops = [n for n in walk_body(ff) if isinstance(n, ast.For) and u(n.iter) == params_of(ff)[1]]
-    if not floops:
-        raise AnchorMissing("loop over the filter items in _filters_from_filtered_tasks")
-    FL = floops[0]
-    if not isinstance(FL.target, ast.Name):
-        raise AnchorMissing("loop variable of the loop over the filter items in _filters_from_filtered_tasks")
-    item = FL.target.id
+            chk.unknown("O11.1", f"{fo.name} is not a decision over (exclude, parallel, per-filter match results): {e}", fo)
+            continue
+        wrong = [(vec, g_) for vec, g_ in got_v if g_ != want]
+        chk.ob("O11.1", inst, not wrong, fo, f"removes: {want if not wrong else wrong[0][1]}; documented: {want}" + (f" (filters match: {wrong[0][0]})" if wrong else ""),
+               key=f"{_L}:_filter_out_match:{exclude}|{parallel}|{match}")
+    # mode selection, decided on VALUES over (include list given?, exclude list given?): which list the filters are built from and which mode is set
+    optc = {a.value for g in pclosure(init) for c in ast.walk(g) if isinstance(c, ast.Call) for a in list(c.args) + [k.value for k in c.keywords] if isinstance(a, ast.Constant) and a.value in OPTS}
+    if not optc:
+        raise AnchorMissing("the constructor reads neither include.tasks nor exclude.tasks")
+    chk.ob("O11.1", "include / exclude lists read from the options include.tasks / exclude.tasks", optc == set(OPTS), init, f"read: {sorted(optc)}")
+    if run_err is not None:
+        chk.unknown("O11.1", f"the constructor is not interpretable on the two option lists: {run_err}", init)
+    for k_ in (() if run_err is not None else itertools.product([True, False], repeat=2)):
+        inc_given, exc_given = k_
+        kind, text, fields = states[k_]
+        inst = f"include list {'given' if inc_given else 'absent'}, exclude list {'given' if exc_given else 'absent'} => {'include' if inc_given else 'exclude'} mode on that list"
+        key = f"{_L}:TaskFilterTrackProcessor.__init__:mode:{inc_given}|{exc_given}"
+        if kind == "raise":
+            chk.ob("O11.1", inst, False, init, f"the constructor raises {text}", key=key)
+            continue
+        try:
+            fl = built(fields)
+        except _CannotRun as e:
+            chk.unknown("O11.1", f"mode selection: {e}", init)
+            continue
+        want_fl = [("TaskNameFilter", "i")] if inc_given else ([("TaskNameFilter", "e")] if exc_given else [])
+        mv = modeval[k_]
+        if MISSING in (a_inc, b_exc) or (fl and mv is MISSING):
+            chk.unknown("O11.1", f"mode selection: self.{mattr} is not evaluable after the constructor", init)
+            continue
+        # the mode attribute separates the two modes; with both lists given include wins; without any filter the mode is never consulted
+        mode_ok = bool(a_inc) != bool(b_exc) and (not fl or bool(mv) == bool(a_inc if inc_given else b_exc))
+        chk.ob("O11.1", inst, fl == want_fl and mode_ok, init, f"{mattr} := {'?' if mv is MISSING else repr(mv)} (include list alone: {a_inc!r}, exclude list alone: {b_exc!r}); filters built: {fl}", key=key)
+    # spec parsing, decided on VALUES end to end (option value -> filters of the processor): split on ':', the parts handed on verbatim (case preserved), one filter per item in list order
     SAMPLES = [("Bulk-EU", ("TaskNameFilter", "Bulk-EU")), ("type:followerStats", ("TaskOpTypeFilter", "followerStats")), ("tag:regionEU", ("TaskTagFilter", "regionEU")),
                ("kind:x", ("raise", None)), ("a:b:c", ("raise", None)), ("Type:search", ("raise", None))]
+
+    def parsed(items, as_include):
+        kind, text, fields = init_state(items if as_include else None, None if as_include else items)
+        return ("raise", text) if kind == "raise" else ("filters", built(fields))
+
     for text, (wk, wv) in SAMPLES:
-        cur = {}
-
-        def hook(s_, env, b_):
-            cur["b"] = b_
-            return None
-
-        def val_env():
-            env_ = {item: text}
-            for _ in range(3):
-                for k_, v_ in cur.get("b", {}).items():
-                    if v_ is not None and k_ not in env_:
-                        try:
-                            env_[k_] = minieval.ev(v_, dict(env_))
-                        except minieval.CannotEval:
-                            pass
-            return env_
-
-        def atom_s(n, env):
-            try:
-                return bool(minieval.ev(n, val_env()))
-            except minieval.CannotEval:
-                return None
-
+        want_p = "raise" if wk == "raise" else [(wk, wv)]
         try:
-            out = decide(FL.body, atom_s, {}, on_stmt=hook)
-        except (Unsupported, UnknownAtom) as e:
-            chk.unknown("O11.1", f"spec parsing is not a decision over the split item: {e}", FL)
+            got_p = [parsed([text], r_) for r_ in (True, False)]
+        except (_CannotRun, minieval.CannotEval) as e:
+            chk.unknown("O11.1", f"spec parsing is not interpretable on the item {text!r}: {e}", ff)
             break
-        if wk == "raise":
-            ok = out.kind == "raise"
-            got = out.text()[:60]
+        ok = all((g_[0] == "raise") if want_p == "raise" else (g_ == ("filters", want_p)) for g_ in got_p)
+        bad_p = next((g_ for g_ in got_p if not ((g_[0] == "raise") if want_p == "raise" else (g_ == ("filters", want_p)))), got_p[0])
+        got = f"raise {str(bad_p[1])[:50]}" if bad_p[0] == "raise" else (", ".join(f"{c_}({v_!r})" for c_, v_ in bad_p[1]) or "no filter")
+        chk.ob("O11.1", f"spec parsing: item {text!r} => {wk}{'(' + repr(wv) + ')' if wv else ''}", ok, ff, f"got {got}", key=f"{_L}:_filters_from_filtered_tasks:item:{text}")
+    else:
+        seq = ["Bulk-EU", "type:followerStats", "tag:regionEU", "Bulk-EU"]
+        want_p = [(wk, wv) for t_ in seq for x_, (wk, wv) in SAMPLES if x_ == t_]
+        try:
+            got_p = parsed(seq, True)
+            chk.ob("O11.1", "spec parsing: every item of the list yields its filter, in list order (duplicates kept)", got_p == ("filters", want_p), ff,
+                   f"{seq} => {got_p[1]}" + ("" if got_p == ("filters", want_p) else ": filters of later items are lost / reordered - tasks only they select are filtered wrongly"),
+                   key=f"{_L}:_filters_from_filtered_tasks:all-items")
+        except (_CannotRun, minieval.CannotEval) as e:
+            chk.unknown("O11.1", f"spec parsing is not interpretable on a list of several items: {e}", ff)
+    # filter classes, INTERPRETED on representative tasks: constructed on v, matches(task) holds exactly when v is the task's name / the type of its operation / one of its tags
+    R_ = minieval.Record
+    TASKS = [R_(name="index-eu", operation=R_(type="bulk", name="index-op"), tags=["regionEU", "write"]),
+             R_(name="bulk", operation=R_(type="search", name="index-eu"), tags=["bulk-tag"]),
+             R_(name="search", operation=R_(type="search", name="q"), tags=[])]
+    VALUES = ["index-eu", "bulk", "search", "index-op", "q", "regionEU", "write", "bulk-tag", "index", "region", "regionEU,write", "tag", "Index-EU", "BULK", "regioneu", " bulk", "search ", ""]
+    CASEWS = ("Index-EU", "BULK", "regioneu", " bulk", "search ")
+    EXPECT = {"TaskNameFilter": lambda v, t: t.fields["name"] == v, "TaskOpTypeFilter": lambda v, t: t.fields["operation"].fields["type"] == v, "TaskTagFilter": lambda v, t: v in t.fields["tags"]}
+
+    def filter_matches(c, v, t):
+        """<c>(v).matches(t), interpreted"""
+        it = _Interp(repo)
+        me = R_(**it.class_consts(trk, c))
+        fr = it.frame(trk, c, me)
+        ini, m = trk.methods(c).get("__init__"), trk.methods(c).get("matches")
+        if ini is not None and len(params_of(ini)) == 2:
+            it.invoke(ini, None, fr, True, argv={params_of(ini)[1]: v})
+        elif ini is None and any((dotted(d_.func if isinstance(d_, ast.Call) else d_) or "").split(".")[-1] == "dataclass" for d_ in c.decorator_list):
+            flds = [s_.target.id for s_ in c.body if isinstance(s_, ast.AnnAssign) and isinstance(s_.target, ast.Name)]
+            if len(flds) != 1:
+                raise _CannotRun(f"{c.name}: {len(flds)} dataclass fields")
+            me.fields[flds[0]] = v
         else:
-            cons = [e_.args[0] for e_ in out.effects if isinstance(e_, ast.Call) and last_attr(e_.func) == "append" and e_.args and isinstance(e_.args[0], ast.Call)]
-            got = "no filter"
-            ok = False
-            if len(cons) == 1 and cons[0].args:
-                try:
-                    v = minieval.ev(cons[0].args[0], val_env())
-                    got = f"{last_attr(cons[0].func)}({v!r})"
-                    ok = last_attr(cons[0].func) == wk and v == wv
-                except minieval.CannotEval as e:
-                    got = f"{short(cons[0], 60)} (not evaluable: {e})"
-        chk.ob("O11.1", f"spec parsing: item {text!r} => {wk}{'(' + repr(wv) + ')' if wv else ''}", ok, FL, f"got {got}", key=f"{_L}:_filters_from_filtered_tasks:item:{text}")
-    # filter classes: the single return compares the stored attribute with the right field of the task PARAMETER (either orientation)
-    for cname, attr, pattern in (("TaskNameFilter", "name", "self.name == {0}.name"), ("TaskOpTypeFilter", "op_type", "self.op_type == {0}.operation.type"), ("TaskTagFilter", "tag_name", "self.tag_name in {0}.tags")):
+            raise _CannotRun(f"{c.name}: no one-argument constructor")
+        if m is None or len(params_of(m)) != 2:
+            raise _CannotRun(f"{c.name}.matches(self, <task>) not found")
+        return bool(it.invoke(m, None, fr, True, argv={params_of(m)[1]: t}))
+
+    for cname in ("TaskNameFilter", "TaskOpTypeFilter", "TaskTagFilter"):
         c = trk.cls(cname)
         m = trk.methods(c).get("matches")
-        rets = [n for n in walk_body(m) if isinstance(n, ast.Return)] if m else []
-        ok = len(rets) == 1 and len(params_of(m)) >= 2 and _pat.is_(rets[0].value, pattern.format(params_of(m)[1]))
-        chk.ob("O11.1", f"{cname}.matches", ok, m if m else c, short(rets[0], 60) if rets else "")
-        ini = trk.methods(c).get("__init__")
-        ok = ini is not None and len(params_of(ini)) >= 2 and any(isinstance(n, ast.Assign) and is_self_attr(n.targets[0], attr) and u(n.value) == params_of(ini)[1] for n in walk_body(ini))
-        chk.ob("O11.1", f"{cname} stores its argument", ok, ini if ini else c, "")
+        site = m if m is not None else c
+        try:
+            wrong = [(v, t) for v in VALUES for t in TASKS if filter_matches(c, v, t) != EXPECT[cname](v, t)]
+        except (_CannotRun, minieval.CannotEval, _Raised) as e:
+            chk.unknown("O11.1", f"{cname} is not interpretable on representative tasks: {e}", site)
+            continue
+        exact = [w for w in wrong if w[0] in CASEWS]  # the samples that differ from a field of the task only by case / surrounding whitespace
+        other = [w for w in wrong if w[0] not in CASEWS]
+
+        def show(w):
+            t = w[1].fields
+            return f"{cname}({w[0]!r}).matches(task name={t['name']!r}, operation type={t['operation'].fields['type']!r}, tags={t['tags']!r}) is {not EXPECT[cname](*w)}"
+
+        chk.ob("O11.1", f"{cname}.matches", not other, site, show(other[0]) if other else "")
+        chk.ob("O11.1", f"{cname} stores its argument", not exact, trk.methods(c).get("__init__") or c, show(exact[0]) + ": the argument is not kept verbatim" if exact else "")
     # a parallel element matches iff some leaf matches: Parallel.matches EVALUATED on representative leaf results (no leaf, one, several, match first / last / never)
     PA = trk.cls("Parallel")
     pmt = trk.methods(PA).get("matches")
-    ok, det = False, "Parallel.matches not found"
-    if pmt is not None and len(params_of(pmt)) >= 2:
-        fparam = params_of(pmt)[1]
+    if pmt is None or len(params_of(pmt)) < 2:
+        raise AnchorMissing("Parallel.matches(self, <filter>)")
+    fparam = params_of(pmt)[1]
 
-        def leaf_call(n, var):
-            return isinstance(n, ast.Call) and last_attr(n.func) == "matches" and isinstance(n.func.value, ast.Name) and n.func.value.id == var and len(n.args) == 1 and u(n.args[0]) == fparam
+    def leaf_call(n, var):
+        return isinstance(n, ast.Call) and last_attr(n.func) == "matches" and isinstance(n.func.value, ast.Name) and n.func.value.id == var and len(n.args) == 1 and u(n.args[0]) == fparam
 
-        def pm_eval(leaves):
-            def atom_p(n, env):
-                if env.get("var") is not None and leaf_call(n, env["var"]):
-                    return env["leaf"]
-                if isinstance(n, ast.Call) and dotted(n.func) in ("any", "all") and len(n.args) == 1 and isinstance(n.args[0], (ast.GeneratorExp, ast.ListComp)) and len(n.args[0].generators) == 1:
-                    g = n.args[0].generators[0]
-                    if is_self_attr(g.iter, "tasks") and isinstance(g.target, ast.Name) and not g.is_async:
-                        vals = [bool_eval(n.args[0].elt, lambda x, v=v: atom_p(x, {"var": g.target.id, "leaf": v})) for v in leaves
-                                if all(bool_eval(c_, lambda x, v=v: atom_p(x, {"var": g.target.id, "leaf": v})) for c_ in g.ifs)]
-                        return any(vals) if dotted(n.func) == "any" else all(vals)
-                return None
-
-            jump_b = {}
-
-            def on_stmt_p(s_, env, b_):
-                if is_logging_stmt(s_):
-                    return "skip"
-                if isinstance(s_, (ast.Break, ast.Continue)):
-                    jump_b["b"] = dict(b_)  # locals bound so far on the path that leaves the iteration here
-                if env.get("var") is not None and isinstance(s_, ast.Assign) and len(s_.targets) == 1 and isinstance(s_.targets[0], ast.Name):
-                    # a flag computed from the current leaf is fixed now (the leaf variable means something else in the next iteration)
-                    def at_(x):
-                        if isinstance(x, ast.Name) and b_.get(x.id) is not None:
-                            return bool_eval(b_[x.id], at_)
-                        return atom_p(x, env)
-
-                    try:
-                        b_[s_.targets[0].id] = ast.Constant(value=bool_eval(s_.value, at_))
-                        return "skip"
-                    except UnknownAtom:
-                        return None
-                if isinstance(s_, ast.For) and is_self_attr(s_.iter, "tasks") and isinstance(s_.target, ast.Name):
-                    broke = False
-                    for v in leaves:
-                        o_ = decide(s_.body, atom_p, {"var": s_.target.id, "leaf": v}, b_, on_stmt_p)
-                        if o_.kind == "return" and o_.value is not None:
-                            o_.value = ast.Constant(value=bool_eval(o_.value, lambda x, v=v: atom_p(x, {"var": s_.target.id, "leaf": v})))  # a result computed from the current leaf is fixed here
-                        if o_.kind in ("return", "raise"):
-                            return o_
-                        b_.update(jump_b.pop("b", {}) if o_.kind in ("break", "continue") else getattr(o_, "bindings", {}))
-                        if o_.kind == "break":
-                            broke = True
-                            break
-                    if s_.orelse and not broke:
-                        o_ = decide(s_.orelse, atom_p, env, b_, on_stmt_p)
-                        if o_.kind != "fallthrough":
-                            return o_
-                        b_.update(getattr(o_, "bindings", {}))
-                    return "skip"
-                return None
-
-            o_ = decide(pmt.body, atom_p, {}, on_stmt=on_stmt_p)
-            if o_.kind != "return" or o_.value is None:
-                raise Unsupported(f"no boolean result ({o_.text()})")
-            return bool_eval(o_.value, lambda x: atom_p(x, {}))
-
-        try:
-            wrong = [lv for lv in ([], [True], [False], [True, False], [False, True], [False, False], [True, True]) if pm_eval(lv) != any(lv)]
-            ok, det = not wrong, ("" if not wrong else f"wrong result for leaf match results {wrong[0]}: {not any(wrong[0])}")
-        except (Unsupported, UnknownAtom) as e:
-            ok, det = False, f"Parallel.matches is not a decision over the leaf match results: {e}"
-    chk.ob("O11.1", "a parallel element matches iff some leaf matches", ok, pmt if pmt is not None else PA, det)
+    try:
+        wrong = [lv for lv in VECS if scan_eval(pmt.body, lambda e: is_self_attr(strip_sel(e), "tasks") or u(strip_sel(e)) == "self", leaf_call, lambda n: None, lv) != any(lv)]
+        chk.ob("O11.1", "a parallel element matches iff some leaf matches", not wrong, pmt, "" if not wrong else f"wrong result for leaf match results {wrong[0]}: {not any(wrong[0])}")
+    except (Unsupported, UnknownAtom) as e:
+        chk.unknown("O11.1", f"Parallel.matches is not a decision over the leaf match results: {e}", pmt)
     TK = trk.cls("Task")
     tinit = trk.methods(TK).get("__init__")
     if tinit is None or "tags" not in params_of(tinit):
@@ -290,65 +1157,74 @@ def run(chk):
     tag_stores = [n for n in walk_body(tinit) if isinstance(n, ast.Assign) and any(is_self_attr(t, "tags") for t in n.targets)]
 
     def tags_after_init(value):
-        """self.tags after Task.__init__ for one concrete `tags` argument, EVALUATED (whatever the shape / polarity / arm order of the normalising code)."""
-        cur_t = {}
-
-        def env_t(bnd):
-            env_ = {"tags": value}
-            for _ in range(3):
-                for k_, v_ in bnd.items():
-                    if v_ is not None and k_ not in env_:
-                        try:
-                            env_[k_] = minieval.ev(v_, dict(env_))
-                        except minieval.CannotEval:
-                            pass
-            return env_
-
-        def hook_t(s_, env, b_):
-            cur_t["b"] = b_
-            return "skip" if is_logging_stmt(s_) else None
-
-        def atom_t(n, env):
-            try:
-                return bool(minieval.ev(n, env_t(cur_t.get("b", {}))))
-            except minieval.CannotEval:
-                return None
-
-        o_ = decide(tinit.body, atom_t, {}, on_stmt=hook_t)
-        st = [e_ for e_ in o_.effects if isinstance(e_, ast.Assign) and any(is_self_attr(t, "tags") for t in e_.targets)]
-        if o_.kind not in ("fallthrough", "return") or not st:
-            raise Unsupported(f"no store to self.tags for tags={value!r}")
-        return minieval.ev(st[-1].value, env_t(getattr(o_, "bindings", {})))
+        """self.tags after Task.__init__ for one concrete `tags` argument, INTERPRETED (whatever the shape / polarity / arm order of the normalising code, also behind a helper)"""
+        it = _Interp(repo)
+        me = minieval.Record(**it.class_consts(trk, TK))
+        argv = {"tags": value}
+        for p_ in params_of(tinit)[1:3]:
+            argv.setdefault(p_, minieval.Record(name="t", type="bulk"))  # name / operation: opaque
+        it.invoke(tinit, None, it.frame(trk, TK, me), True, argv=argv)
+        if "tags" not in me.fields:
+            raise _CannotRun(f"self.tags is not stored / not evaluable for tags={value!r}")
+        return me.fields["tags"]
 
     try:
-        got_t = tags_after_init("regionEU")
-        wrap = isinstance(got_t, (list, tuple, set)) and list(got_t) == ["regionEU"]
-        det_t = "" if wrap else f"tags='regionEU' is stored as {got_t!r}: tags may stay a plain string: `tag in task.tags` becomes a substring test"
-    except (Unsupported, UnknownAtom, minieval.CannotEval):
-        # not evaluable: fall back to the guard facts of the wrapping store (polarity-insensitive)
-        wrap = any(isinstance(n.value, ast.List) and len(n.value.elts) == 1 and u(n.value.elts[0]) == "tags" and _pat.guarded(n, "isinstance(tags, str)", stop=tinit) is not None for n in tag_stores)
-        det_t = "" if wrap else "tags may stay a plain string: `tag in task.tags` becomes a substring test"
-    chk.ob("O11.1", "a single tag given as a string is wrapped into a list (tag filter is membership, not substring)", bool(wrap), tag_stores[0] if tag_stores else tinit, det_t)
+        got_t = {k_: tags_after_init(v_) for k_, v_ in (("str", "regionEU"), ("list", ["regionEU", "write"]), ("none", None))}
+        seq_ok = all(isinstance(v_, (list, tuple, set, frozenset)) for v_ in got_t.values())
+        wrap = seq_ok and list(got_t["str"]) == ["regionEU"] and sorted(got_t["list"]) == ["regionEU", "write"] and len(got_t["none"]) == 0
+        det_t = "" if wrap else (f"tags='regionEU' is stored as {got_t['str']!r}: tags may stay a plain string: `tag in task.tags` becomes a substring test" if list(got_t["str"]) != ["regionEU"] or not seq_ok
+                                 else f"tags=['regionEU', 'write'] is stored as {got_t['list']!r}, tags=None as {got_t['none']!r}")
+        chk.ob("O11.1", "a single tag given as a string is wrapped into a list (tag filter is membership, not substring)", bool(wrap), tag_stores[0] if tag_stores else tinit, det_t)
+    except _Raised as e:
+        chk.ob("O11.1", "a single tag given as a string is wrapped into a list (tag filter is membership, not substring)", False, tag_stores[0] if tag_stores else tinit, f"Task.__init__ raises {e.text}")
+    except (_CannotRun, minieval.CannotEval) as e:
+        chk.unknown("O11.1", f"Task.__init__ is not interpretable on representative `tags` arguments: {e}", tinit)
+    # Task.matches hands the decision to the filter: INTERPRETED with a filter whose matches() answer is fixed - the task returns that answer and passes ITSELF
     tm = trk.methods(TK).get("matches")
-    ok = tm is not None and any(isinstance(n, ast.Return) and isinstance(n.value, ast.Call) and last_attr(n.value.func) == "matches" and u(n.value.args[0]) == "self" for n in walk_body(tm))
-    chk.ob("O11.1", "Task.matches delegates to the filter", ok, tm if tm is not None else TK, "")
+    if tm is None or len(params_of(tm)) != 2:
+        raise AnchorMissing("Task.matches(self, <filter>)")
+    try:
+        wrong = None
+        for answer in (True, False):
+            probe, asked = minieval.Record(kind="filter"), []
+
+            def special(call, env, it, probe=probe, asked=asked, answer=answer):
+                if isinstance(call.func, ast.Attribute) and call.func.attr == "matches" and len(call.args) == 1 and not call.keywords:
+                    try:
+                        recv = it.val(call.func.value, env)
+                    except minieval.CannotEval:
+                        return _NOHOOK
+                    if recv is probe:
+                        try:
+                            asked.append(it.val(call.args[0], env))
+                        except minieval.CannotEval:
+                            asked.append(None)  # something else than the task itself (an attribute of it, a copy)
+                        return answer
+                return _NOHOOK
+
+            it = _Interp(repo, special)
+            me = minieval.Record(**it.class_consts(trk, TK))
+            got = it.invoke(tm, None, it.frame(trk, TK, me), True, argv={params_of(tm)[1]: probe})
+            if not (len(asked) >= 1 and all(a_ is me for a_ in asked) and isinstance(got, bool) and got == answer):
+                wrong = wrong or (f"the filter answers {answer}, Task.matches returns {got!r}" if asked else "the filter is never asked") + ("" if all(a_ is me for a_ in asked) else " (asked about another object than the task)")
+        chk.ob("O11.1", "Task.matches delegates to the filter", wrong is None, tm, wrong or "")
+    except (_CannotRun, minieval.CannotEval, _Raised) as e:
+        chk.unknown("O11.1", f"Task.matches is not interpretable with a probe filter: {e}", tm)
 
     # ---- O11.2 no empty parallel survives ----------------------------------------------------------------------------------------------------------
     chk.rule("O11.2", "every site that can shrink a parallel element is followed, on every path that keeps the element, by an emptiness test of that element whose empty edge removes it from the challenge; "
              "the schema forbids empty `tasks` on load", 3,
              "--exclude-tasks matching every task of a parallel element (also through several filters that only together cover it) leaves an empty parallel element in the schedule")
 
-    def strip_sel(e):
-        """the collection expression under slices / list() / reversed() / .copy() wrappers (what KIND of object is iterated, not how much of it)."""
-        while True:
-            if isinstance(e, ast.Subscript):
-                e = e.value
-            elif isinstance(e, ast.Call) and dotted(e.func) in ("list", "reversed", "sorted", "tuple", "iter") and len(e.args) == 1:
-                e = e.args[0]
-            elif isinstance(e, ast.Call) and isinstance(e.func, ast.Attribute) and e.func.attr == "copy" and not e.args:
-                e = e.func.value
-            else:
-                return e
+    # the hook read TOGETHER with the helpers extracted from it (the match routine stays a call: it is the atomic condition of the rules below)
+    def oa_resolve(call):
+        h = helper_of(call)
+        return h if h is not None and h is not oa and h is not init and not any(h is g for g in fo_slice) else None
+
+    oaX, exp_ids, failed_ids = inline_helpers(oa, oa_resolve, parent=P)
+    oa_slice = pclosure(oa)
+    inlined = [h for h in oa_slice if id(h) in exp_ids and id(h) not in failed_ids]  # helpers that only exist inside oaX now
+    separate = [h for h in oa_slice if h is not oa and not any(h is g for g in inlined) and not any(h is g for g in fo_slice)]  # helpers still behind a call
 
     def is_challenge_receiver(c):
         """the receiver of this remove_task call is a CHALLENGE (not a schedule element), decided by role: a parameter called `challenge`, the loop variable of a loop over
@@ -367,18 +1243,43 @@ def run(chk):
         return any(isinstance(n, (ast.For, ast.comprehension)) and isinstance(strip_sel(n.iter), ast.Attribute) and strip_sel(n.iter).attr == "schedule" and isinstance(strip_sel(n.iter).value, ast.Name)
                    and strip_sel(n.iter).value.id == r_.id for n in ast.walk(fn_))
 
-    shrink = [c for c in package_calls(repo, "remove_task") if isinstance(c.func, ast.Attribute) and not is_challenge_receiver(c)]
-    shrink = [c for c in shrink if source.enclosing_class(c) is not None and source.enclosing_class(c).name != "Parallel"]
+    def filter_store(n):
+        """(owner, container attribute, variable, keep-conditions) if the statement rebuilds `<owner>.tasks` / `<owner>.schedule` as a filtering comprehension over itself - the kept
+        elements stay the same objects in the same order: a removal written as a store"""
+        if not (isinstance(n, ast.Assign) and len(n.targets) == 1 and isinstance(n.targets[0], ast.Attribute) and n.targets[0].attr in ("tasks", "schedule")):
+            return None
+        t, v = n.targets[0], n.value
+        if isinstance(v, ast.Call) and dotted(v.func) == "list" and len(v.args) == 1 and isinstance(v.args[0], ast.GeneratorExp):
+            v = v.args[0]
+        elif not isinstance(v, ast.ListComp):
+            return None
+        if len(v.generators) != 1 or v.generators[0].is_async:
+            return None
+        g = v.generators[0]
+        if not (isinstance(g.target, ast.Name) and isinstance(v.elt, ast.Name) and v.elt.id == g.target.id and u(strip_sel(g.iter)) in (u(t), u(t.value))):
+            return None
+        return t.value, t.attr, g.target.id, [a for c_ in g.ifs for a in conjuncts(c_)]
+
+    shrink = [c for c in package_calls(repo, "remove_task") if source.enclosing_func(c) is not oa and not any(source.enclosing_func(c) is h for h in inlined)]
+    shrink += [c for c in ast.walk(oaX) if isinstance(c, ast.Call) and last_attr(c.func) == "remove_task"]
+    shrink = [c for c in shrink if isinstance(c.func, ast.Attribute) and not is_challenge_receiver(c)]
+    shrink = [(c, c.func.value) for c in shrink if source.enclosing_class(c) is not None and source.enclosing_class(c).name != "Parallel"]
+    fstores = [(n, filter_store(n)) for f in [oaX] + separate for n in ast.walk(f) if filter_store(n) is not None]
+    shrink += [(n, fs_[0]) for n, fs_ in fstores if fs_[1] == "tasks"]  # `<element>.tasks = [t for t in <element>.tasks if ...]` shrinks the element, too
+    for n, fs_ in fstores:
+        if fs_[1] == "schedule":
+            chk.unknown("O11.2", f"the schedule is rebuilt by a filtering comprehension ({short(n, 60)}): which elements stay is not read from this shape", n)
     if not shrink:
         raise AnchorMissing("call site removing a sub-task from a parallel element")
-    for c in shrink:
+    for c, recv_ in shrink:
         fn = source.enclosing_func(c)
         gfn = cfg_of(fn)
-        obj = u(c.func.value)
+        obj = u(recv_)
         # the enclosing loop over the schedule
         outer = [a for a in source.ancestors(c) if isinstance(a, ast.For) and isinstance(a.target, ast.Name) and a.target.id == obj]
         if not outer:
-            chk.ob("O11.2", f"{source.qualname(c)}: shrink of {obj}", False, c, "shrink site is not inside a loop over the schedule elements")
+            # the element is not a loop variable here (it arrives as a parameter of a helper that could not be read together with its caller): nothing is known about what follows
+            chk.unknown("O11.2", f"{source.qualname(c)}: the shrink site of `{obj}` is not inside a loop over the schedule elements (helper not expandable into its caller)", c)
             continue
         OL = outer[0]
         parallel_tests = [p_.format(obj) for p_ in PARALLEL_TESTS]
@@ -386,14 +1287,18 @@ def run(chk):
         def removing(arm):
             return [x for s in arm for x in ast.walk(s) if isinstance(x, ast.Call) and last_attr(x.func) in ("append", "remove_task", "remove") and x.args and u(x.args[0]) == obj]
 
-        # an emptiness test is an `if` one of whose ARMS (true arm: the conjuncts of the test; false arm: the conjuncts of its negation) is entered exactly when the element is an
-        # emptied parallel element, and that arm removes the element -- whichever arm it is and however the test is written
+        # an emptiness test is an `if` one of whose ARMS (true arm: the test; false arm: its negation) is entered WHENEVER the element is an emptied parallel element - some disjunct
+        # of the arm's condition consists of nothing but emptiness tests / parallel tests of the element -, and that arm removes the element -- whichever arm it is and however
+        # the test is written (also as one alternative of `<removed by the filters> or <emptied>`)
         tests, arms = [], {}
         for n in ast.walk(OL):
             if isinstance(n, ast.If):
-                for arm, fs in ((n.body, conjuncts(n.test)), (n.orelse, conjuncts(negate(n.test)))):
-                    kinds = [emptiness_test(a, obj) for a in fs]
-                    if arm and "empty" in kinds and all(k == "empty" or _pat.is_(a, *parallel_tests) for a, k in zip(fs, kinds)) and removing(arm):
+                for arm, cond in ((n.body, n.test), (n.orelse, negate(n.test))):
+                    hit = False
+                    for fs in (dnf(cond) or []):
+                        kinds = [emptiness_test(a, obj) for a in fs]
+                        hit = hit or ("empty" in kinds and all(k == "empty" or _pat.is_(a, *parallel_tests) for a, k in zip(fs, kinds)))
+                    if arm and hit and removing(arm):
                         tests.append(n)
                         arms[id(n)] = arm
                         break
@@ -402,16 +1307,32 @@ def run(chk):
         tn = [gfn.node_of(t) for t in tests]
         # every path from the shrink to the next outer iteration passes the emptiness test
         ok = bool(tn) and head.id not in gfn.reachable([gfn.nodes[y] for y, lab in gfn.succ[cn.id] if gfn.normal_edge(cn.id, y, lab)], avoid=tn, edge_ok=gfn.normal_edge)
+        if not tests and any(fs_[1] == "schedule" and source.enclosing_func(n) is fn for n, fs_ in fstores):
+            chk.unknown("O11.2", f"{source.qualname(c)}: the schedule is rebuilt by a filtering comprehension - whether it drops the emptied `{obj}` is not read from this shape", c)
+            continue
         chk.ob("O11.2", f"{source.qualname(c)}: emptiness test after shrinking {obj}", ok, c,
                f"{len(tests)} emptiness test(s) with a removing empty-edge" + ("" if ok else "; a path keeps a possibly emptied parallel element in the schedule"),
                key=f"{_L}:{source.qualname(c)}:empty-check-after-shrink")
         # the collected elements are really removed from the challenge afterwards
         if tests:
             coll = [x for x in removing(arms[id(tests[0])]) if last_attr(x.func) == "append"]
-            if coll:
+            if not coll:
+                direct = [x for x in removing(arms[id(tests[0])]) if last_attr(x.func) in ("remove_task", "remove")]
+                chk.ob("O11.2", "collected elements are removed from the challenge", bool(direct), direct[0] if direct else tests[0], "the emptied element is removed at once" if direct else "")
+            else:
                 lst = u(coll[0].func.value)
-                rm = [n for n in walk_body(fn) if isinstance(n, ast.For) and u(n.iter) == lst and any(isinstance(x, ast.Call) and last_attr(x.func) == "remove_task" for x in ast.walk(n))]
-                chk.ob("O11.2", "collected elements are removed from the challenge", bool(rm), coll[0], "")
+                names_ = {lst}  # the list and the names it is handed on to by plain assignment (x = lst; a helper's `return lst` expanded into `x = lst`)
+                for _ in range(4):
+                    names_ |= {t_.id for n in ast.walk(fn) if isinstance(n, ast.Assign) and isinstance(n.value, ast.Name) and n.value.id in names_ for t_ in n.targets if isinstance(t_, ast.Name)}
+                rm = [n for n in ast.walk(fn) if isinstance(n, (ast.For, ast.comprehension)) and u(strip_sel(n.iter)) in names_ and isinstance(n.target, ast.Name) and any(
+                    isinstance(x, ast.Call) and last_attr(x.func) in ("remove_task", "remove") and x.args and u(x.args[0]) == n.target.id
+                    for x in ast.walk(n if isinstance(n, ast.For) else source.parent(n)))]
+                escapes = [x for x in ast.walk(fn) if isinstance(x, ast.Call) and not is_logging_call(x) and last_attr(x.func) not in ("len", "append") and any(u(a_) in names_ for a_ in list(x.args) + [k.value for k in x.keywords])]
+                escapes += [x for x in ast.walk(fn) if isinstance(x, ast.Return) and x.value is not None and u(x.value) in names_]
+                if not rm and escapes:
+                    chk.unknown("O11.2", f"the collected elements `{lst}` are handed to {short(escapes[0], 50)}: their removal from the challenge is not visible here", escapes[0])
+                else:
+                    chk.ob("O11.2", "collected elements are removed from the challenge", bool(rm), coll[0], "" if rm else f"`{lst}` is filled but never used to remove its elements from the challenge")
     try:
         schema = json.loads(repo.text(_S))
         found = []
@@ -427,61 +1348,245 @@ def run(chk):
                     walk(v, path + f"/{i}")
 
         walk(schema)
-        ok = bool(found) and all(mi is not None and mi >= 1 for _, mi in found)
-        chk.ob("O11.2", "schema: parallel.tasks has minItems >= 1", ok, _S, f"{found}")
+        if not found:
+            chk.unknown("O11.2", "no object with a `tasks` property in the track schema", _S)
+        else:
+            chk.ob("O11.2", "schema: parallel.tasks has minItems >= 1", all(mi is not None and mi >= 1 for _, mi in found), _S, f"{found}")
     except ValueError as e:
         chk.unknown("O11.2", f"track schema does not parse: {e}", _S)
 
     # ---- O11.3 filter only removes ------------------------------------------------------------------------------------------------------------------------
     chk.rule("O11.3", "the processor performs no attribute store on task/operation objects, mutates schedules only through remove_task, and removes after iterating (never while iterating the same list)", 3,
              "surviving tasks lose properties / order changes / tasks are skipped by mutation during iteration")
-    stores = [n for f in (fo, oa) for n in walk_body(f) if isinstance(n, (ast.Assign, ast.AugAssign)) and any(isinstance(t, (ast.Attribute, ast.Subscript)) for t in (n.targets if isinstance(n, ast.Assign) else [n.target]))]
-    chk.ob("O11.3", "no attribute/item stores in the filter", not stores, stores[0] if stores else oa, short(stores[0], 60) if stores else "")
-    muts = [n for f in (fo, oa) for n in walk_body(f) if isinstance(n, ast.Call) and last_attr(n.func) in ("remove", "pop", "insert", "sort", "reverse", "clear", "extend", "prepend_tasks", "__setitem__")]
-    chk.ob("O11.3", "no mutation other than remove_task / local appends", not muts, muts[0] if muts else oa, "")
-    go = cfg_of(oa)
-    for c in source.calls_in(oa, attr="remove_task"):
+    scope = fo_slice + [oaX] + separate  # the match routine with its helpers, the hook with the helpers expanded into it, the helpers still behind a call
+    # which names can hold a piece of the TRACK (the track, a challenge, a schedule element, a leaf, a list of those) - by data flow from the parameters; the processor's own
+    # attributes (a counter, a log helper) and freshly built local containers are not part of the track
+    WRAP = ("list", "reversed", "sorted", "tuple", "iter", "enumerate", "set", "filter")
+
+    def root_name(e):
+        while True:
+            if isinstance(e, (ast.Attribute, ast.Subscript, ast.Starred)):
+                e = e.value
+            elif isinstance(e, ast.Call) and dotted(e.func) in WRAP and e.args:
+                e = e.args[-1]
+            elif isinstance(e, ast.Call) and isinstance(e.func, ast.Attribute) and e.func.attr in ("copy", "values", "items"):
+                e = e.func.value
+            else:
+                return e.id if isinstance(e, ast.Name) else None
+
+    def track_names(f):
+        t = {p_ for p_ in params_of(f) + [a.arg for a in f.args.kwonlyargs] if p_ not in ("self", "cls")}
+        fresh_ = set()
+        for _ in range(6):
+            for n in ast.walk(f):
+                if isinstance(n, (ast.For, ast.comprehension)) and root_name(n.iter) in t:
+                    t |= {x.id for x in ast.walk(n.target) if isinstance(x, ast.Name)}
+            for n in ast.walk(f):
+                if isinstance(n, ast.Assign):
+                    v = n.value
+                    comp = isinstance(v, (ast.ListComp, ast.SetComp, ast.GeneratorExp)) and root_name(v.elt) in t
+                    if root_name(v) in t or comp:
+                        t |= {x.id for t_ in n.targets for x in ast.walk(t_) if isinstance(x, ast.Name) and isinstance(x.ctx, ast.Store)}
+                elif isinstance(n, ast.Call) and last_attr(n.func) in ("append", "add", "extend", "insert") and isinstance(n.func, ast.Attribute) and isinstance(n.func.value, ast.Name) \
+                        and n.args and root_name(n.args[-1]) in t:
+                    t.add(n.func.value.id)
+        for nm in t:
+            defs_ = [n.value for n in ast.walk(f) if isinstance(n, ast.Assign) and any(isinstance(t_, ast.Name) and t_.id == nm for t_ in n.targets)]
+            if defs_ and all(isinstance(v, (ast.List, ast.ListComp, ast.Set, ast.SetComp, ast.Dict, ast.DictComp)) or (isinstance(v, ast.Call) and dotted(v.func) in WRAP + ("dict",)) for v in defs_):
+                fresh_.add(nm)  # a container built here: changing IT changes nothing of the track
+        return t, fresh_
+
+    MUT = ("remove", "pop", "insert", "sort", "reverse", "clear", "extend", "prepend_tasks", "__setitem__", "__delitem__", "append")
+    stores, muts = [], []
+    for f in scope:
+        tn_, fresh_ = track_names(f)
+        for n in walk_body(f):
+            if filter_store(n) is not None:
+                continue  # a removal written as a store (kept elements: same objects, same order): a shrink site of O11.2 and a queue of the rule below
+            if isinstance(n, (ast.Assign, ast.AugAssign)):
+                for t in (n.targets if isinstance(n, ast.Assign) else [n.target]):
+                    if isinstance(t, (ast.Attribute, ast.Subscript)) and ((root_name(t) in tn_ and not (isinstance(t, ast.Subscript) and isinstance(t.value, ast.Name) and t.value.id in fresh_))
+                                                                         or is_self_attr(t, fattr) or is_self_attr(t, mattr)):
+                        stores.append(n)
+            elif isinstance(n, ast.Delete) and any(isinstance(t, (ast.Attribute, ast.Subscript)) and root_name(t) in tn_ for t in n.targets):
+                stores.append(n)
+            elif isinstance(n, ast.Call) and isinstance(n.func, ast.Attribute) and n.func.attr in MUT:
+                r_ = n.func.value
+                on_track = (isinstance(r_, (ast.Attribute, ast.Subscript)) and root_name(r_) in tn_) or (isinstance(r_, ast.Name) and r_.id in tn_ and r_.id not in fresh_)
+                if on_track and not (n.func.attr == "append" and isinstance(r_, ast.Name)):
+                    muts.append(n)
+    chk.ob("O11.3", "no attribute/item stores in the filter", not stores, stores[0] if stores else oa, (short(stores[0], 60) + ": written on an object of the track (or on the filters / the mode of the processor)") if stores else "")
+    chk.ob("O11.3", "no mutation other than remove_task / local appends", not muts, muts[0] if muts else oa, short(muts[0], 60) if muts else "")
+    for c in [c for f in [oaX] + separate for c in source.calls_in(f, attr="remove_task")]:
         recv = u(c.func.value)
-        loops = [a for a in source.ancestors(c) if isinstance(a, ast.For)]
-        bad = False
-        for lp in loops:
-            it = u(lp.iter)
-            if it in (f"{recv}.schedule", recv, f"{recv}.tasks"):
-                bad = True
+        its = [a.iter for a in source.ancestors(c) if isinstance(a, ast.For)] + [g.iter for a in source.ancestors(c) if isinstance(a, (ast.ListComp, ast.SetComp, ast.GeneratorExp, ast.DictComp)) for g in a.generators]
+        bad = any(u(it) in (f"{recv}.schedule", recv, f"{recv}.tasks") for it in its)
         chk.ob("O11.3", f"{short(c, 40)} not while iterating {recv}", not bad, c, "")
-    # challenge.remove_task / Parallel.remove_task are plain list removals (order preserved)
-    for cname in ("Challenge", "Parallel"):
+    # challenge.remove_task / Parallel.remove_task are plain list removals, INTERPRETED on a list of three elements: afterwards the list holds the other two in their order, and
+    # nothing else of the object is written
+    for cname, cattr in (("Challenge", "schedule"), ("Parallel", "tasks")):
         c = trk.cls(cname)
         rt = trk.methods(c).get("remove_task")
-        rb = [s_ for s_ in rt.body if not is_logging_stmt(s_) and not (isinstance(s_, ast.Expr) and isinstance(s_.value, ast.Constant))] if rt is not None else []  # logging / docstring do not count
-        ok = rt is not None and len(rb) == 1 and isinstance(rb[0], ast.Expr) and isinstance(rb[0].value, ast.Call) and last_attr(rb[0].value.func) == "remove"
-        chk.ob("O11.3", f"{cname}.remove_task is a plain list removal", ok, rt if rt else c, "")
+        if rt is None or len(params_of(rt)) != 2:
+            raise AnchorMissing(f"{cname}.remove_task(self, <task>)")
+        side = [n for n in walk_body(rt) if isinstance(n, (ast.Assign, ast.AugAssign)) for t in (n.targets if isinstance(n, ast.Assign) else [n.target])
+                if isinstance(t, (ast.Attribute, ast.Subscript)) and not is_self_attr(t, cattr)]
+        if side:
+            chk.ob("O11.3", f"{cname}.remove_task is a plain list removal", False, side[0], f"also writes {short(side[0], 50)}: a property of the element / of the survivors changes")
+            continue
+        try:
+            wrong = None
+            for i in range(3):
+                elems = [minieval.Record(name=f"t{j}") for j in range(3)]
+                it = _Interp(repo)
+                me = minieval.Record(**{cattr: list(elems)})
+                it.invoke(rt, None, it.frame(trk, c, me), True, argv={params_of(rt)[1]: elems[i]})
+                after = me.fields.get(cattr)
+                want_l = [e_ for j, e_ in enumerate(elems) if j != i]
+                if not (isinstance(after, list) and len(after) == 2 and all(a_ is b_ for a_, b_ in zip(after, want_l))):
+                    wrong = wrong or f"removing element {i} of [t0, t1, t2] leaves {[x.fields.get('name') if isinstance(x, minieval.Record) else x for x in after] if isinstance(after, (list, tuple)) else after!r}"
+        except _Raised as e:
+            wrong = f"removing an element of [t0, t1, t2] raises {e.text}"
+        except (_CannotRun, minieval.CannotEval) as e:
+            chk.unknown("O11.3", f"{cname}.remove_task is not interpretable on a list of three elements: {e}", rt)
+            continue
+        chk.ob("O11.3", f"{cname}.remove_task is a plain list removal", wrong is None, rt, wrong or "")
     # all challenges are filtered; leaves of kept parallels are filtered individually
-    chl = [n for n in walk_body(oa) if isinstance(n, ast.For) and u(n.iter).endswith(".challenges")]
-    jumps = [x for n in chl for x in ast.walk(n) if isinstance(x, ast.Return) or (isinstance(x, ast.Break) and source.enclosing(x, (ast.For, ast.While)) is n)]
-    ok = len(chl) == 1 and not jumps
-    chk.ob("O11.3", "every challenge is filtered (the loop over the challenges runs to the end)", ok, jumps[0] if jumps else oa,
-           "" if ok else ("the loop over the challenges is left early: later challenges keep their unfiltered schedule" if chl else "no loop over the challenges"),
-           key=f"{_L}:TaskFilterTrackProcessor.on_after_load_track:all-challenges")
-    early = [n for n in walk_body(oa) if isinstance(n, ast.Return) and guards(n)]
-    ok = all(_pat.guarded(n, "not self.filters") is not None for n in early)
+    chl = [n for n in ast.walk(oaX) if isinstance(n, (ast.For, ast.comprehension)) and isinstance(strip_sel(n.iter), ast.Attribute) and strip_sel(n.iter).attr == "challenges"]
+    if not chl:
+        chk.unknown("O11.3", "no iteration over the challenges of the track in the hook (and the helpers expanded into it)", oa)
+    else:
+        def selects(e):
+            """the iterated expression takes only SOME of the challenges (a slice other than [:], an index)"""
+            while not (isinstance(e, ast.Attribute) and e.attr == "challenges"):
+                if isinstance(e, ast.Subscript):
+                    if not (isinstance(e.slice, ast.Slice) and e.slice.lower is None and e.slice.upper is None and e.slice.step is None):
+                        return True
+                    e = e.value
+                elif isinstance(e, ast.Call) and e.args:
+                    e = e.args[0]
+                else:
+                    e = e.func.value
+            return False
+
+        jumps = [x for n in chl if isinstance(n, ast.For) for x in ast.walk(n) if isinstance(x, ast.Return) or (isinstance(x, ast.Break) and source.enclosing(x, (ast.For, ast.While)) is n)]
+        part = [n for n in chl if selects(n.iter)]
+        ok = len(chl) == 1 and not jumps and not part
+        chk.ob("O11.3", "every challenge is filtered (the loop over the challenges runs to the end)", ok, jumps[0] if jumps else (part[0].iter if part else oa),
+               "" if ok else ("the loop over the challenges is left early: later challenges keep their unfiltered schedule" if jumps else
+                              (f"only a selection of the challenges is filtered: {short(part[0].iter, 40)}" if part else f"{len(chl)} loops over the challenges")),
+               key=f"{_L}:TaskFilterTrackProcessor.on_after_load_track:all-challenges")
+    early = [n for n in walk_body(oaX) if isinstance(n, ast.Return) and guards(n)]
+    ok = all(any(emptiness_test(f_, f"self.{fattr}") == "empty" for f_ in _pat.fact_nodes(n)) for n in early)
     chk.ob("O11.3", "early return only without filters", ok, early[0] if early else oa, "")
 
     # the ONLY reason to remove an element is the match routine: the statements that queue an element for removal are written under exactly one explicit condition, the call of
-    # _filter_out_match on that very element (the emptied-parallel clean-up, keyed by the emptiness test, is decided by O11.2)
-    from sa import pat as _p11
-    n_q = 0
-    for lp in [n for n in walk_body(oa) if isinstance(n, ast.For) and isinstance(n.target, ast.Name)]:
+    # the match routine on that very element (the emptied-parallel clean-up, keyed by the emptiness test, is decided by O11.2). A queue is an `<list>.append(<v>)` in a loop over
+    # <v>, a comprehension `[<v> for <v> in ... if ...]` or filter(<match routine>, ...); it is a TOP-LEVEL queue if the schedule of a challenge is iterated, a LEAF queue if a
+    # schedule element (a variable of a top-level loop, or its .tasks) is iterated.
+    top_loops = [n for n in ast.walk(oaX) if isinstance(n, (ast.For, ast.comprehension)) and isinstance(n.target, ast.Name) and isinstance(strip_sel(n.iter), ast.Attribute) and strip_sel(n.iter).attr == "schedule"]
+    top_vars = {n.target.id for n in top_loops}
+
+    def level(it):
+        e = strip_sel(it)
+        if isinstance(e, ast.Attribute) and e.attr == "schedule":
+            return "top"
+        if isinstance(e, ast.Attribute) and e.attr == "tasks":
+            e = e.value
+        return "leaf" if isinstance(e, ast.Name) and e.id in top_vars else None
+
+    def is_match_call(f_, lv):
+        return isinstance(f_, ast.Call) and helper_of(f_) is fo and len(f_.args) == 1 and not f_.keywords and u(f_.args[0]) == lv
+
+    queues = []  # (level, variable, site, conditions, the loop / comprehension node)
+    for lp in [n for n in ast.walk(oaX) if isinstance(n, ast.For) and isinstance(n.target, ast.Name) and level(n.iter)]:
         lv = lp.target.id
-        for c in [c for c in ast.walk(lp) if isinstance(c, ast.Call) and last_attr(c.func) == "append" and c.args and u(c.args[0]) == lv and source.enclosing(c, ast.For) is lp]:
-            fs = _p11.fact_nodes(c, stop=lp, path_sensitive=False)
-            if any(isinstance(f_, ast.Call) and last_attr(f_.func) == "isinstance" for f_ in fs) or any("len(" in u(f_) for f_ in fs):
-                continue  # the emptiness clean-up
-            n_q += 1
-            ok = len(fs) == 1 and _p11.is_(fs[0], f"self.{fo.name}({lv})")
-            chk.ob("O11.3", f"`{lv}` is queued for removal iff the match routine says so (no further condition)", ok, c, f"written under {[u(f_) for f_ in fs]}" +
+        for c in [c for c in ast.walk(lp) if isinstance(c, ast.Call) and last_attr(c.func) in ("append", "remove_task", "remove") and len(c.args) == 1 and u(c.args[0]) == lv and source.enclosing(c, ast.For) is lp]:
+            # `<list>.append(v)` queues v; `<owner>.remove_task(v)` in a loop over a COPY of the owner's list removes it at once (iterating the list itself is refused above)
+            queues.append((level(lp.iter), lv, c, _pat.fact_nodes(c, stop=lp, path_sensitive=True), lp))
+    for cp in [n for n in ast.walk(oaX) if isinstance(n, (ast.ListComp, ast.SetComp, ast.GeneratorExp)) and len(n.generators) == 1]:
+        g = cp.generators[0]
+        if isinstance(g.target, ast.Name) and level(g.iter) and isinstance(cp.elt, ast.Name) and cp.elt.id == g.target.id:
+            fs = [a for t in g.ifs for a in conjuncts(t)]
+            if any(cp is x for n, _ in fstores for x in ast.walk(n)):
+                continue  # the value of a filtering store: read below, with the polarity of a KEEP condition
+            if fs and all(isinstance(f_, ast.UnaryOp) and isinstance(f_.op, ast.Not) and is_match_call(f_.operand, g.target.id) for f_ in fs):
+                continue  # the list of the elements that STAY: not a removal queue (what happens with it is not read here)
+            if any(isinstance(x, ast.Call) and helper_of(x) is fo for f_ in fs for x in ast.walk(f_)):
+                queues.append((level(g.iter), g.target.id, cp, fs, cp))
+    for fc in [n for n in ast.walk(oaX) if isinstance(n, ast.Call) and dotted(n.func) == "filter" and len(n.args) == 2 and is_self_attr(n.args[0], fo.name) and level(n.args[1])]:
+        queues.append((level(fc.args[1]), "<element>", fc, None, fc))
+    def leaf_guard(node):
+        """the leaves of EVERY kept parallel element are looked at: between the loop over the schedule and the leaf queue only `the element is kept` / `the element is parallel` may decide"""
+        tl = next((a for a in source.ancestors(node) if isinstance(a, ast.For) and any(a is t_ for t_ in top_loops)), None)
+        if tl is None:
+            return
+        ev_ = tl.target.id
+        for f_ in _pat.fact_nodes(node, stop=tl, path_sensitive=True):
+            neg = isinstance(f_, ast.UnaryOp) and isinstance(f_.op, ast.Not)
+            core = f_.operand if neg else f_
+            if (neg and is_match_call(core, ev_)) or (not neg and _pat.is_(core, *(p_.format(ev_) for p_ in PARALLEL_TESTS))) or emptiness_test(f_, ev_) == "nonempty":
+                continue
+            if (not neg and is_match_call(core, ev_)) or (neg and _pat.is_(core, *(p_.format(ev_) for p_ in PARALLEL_TESTS))):
+                chk.ob("O11.3", f"the leaves of every kept parallel element `{ev_}` are filtered", False, node,
+                       f"the leaf queue is only reached under `{u(f_)}`: parallel elements that stay keep leaves the filters select for removal",
+                       key=f"{_L}:TaskFilterTrackProcessor.on_after_load_track:leaf-queue-guard")
+            else:
+                chk.unknown("O11.3", f"the leaf queue of `{ev_}` is reached under the unrecognised condition `{short(f_, 50)}`", node)
+
+    found, lists_seen = set(), set()
+    for lvl, lv, site, fs, node in queues:
+        if isinstance(site, ast.Call) and last_attr(site.func) == "append" and isinstance(site.func.value, ast.Name) and site.func.value.id not in lists_seen:
+            # the list starts empty for every challenge (resp. every schedule element): what was queued for one is not removed from - or searched in - the next
+            lname = site.func.value.id
+            lists_seen.add(lname)
+            encl = source.enclosing(node, (ast.For, ast.While))
+            inits = [n for n in ast.walk(oaX) if isinstance(n, ast.Assign) and any(isinstance(t, ast.Name) and t.id == lname for t in n.targets)]
+            if encl is not None and not inits:
+                chk.unknown("O11.3", f"the removal list `{lname}` is not initialised in the hook (or the helpers expanded into it)", site)
+            elif encl is not None:
+                ok = all(any(a is encl for a in source.ancestors(n)) for n in inits)
+                what = "challenge" if lvl == "top" else "schedule element"
+                chk.ob("O11.3", f"the removal list `{lname}` starts empty for every {what}", ok, inits[0],
+                       "" if ok else f"`{lname}` is created once, outside the loop over the {what}s: what was queued for one {what} is removed from (or missing in) the next one",
+                       key=f"{_L}:TaskFilterTrackProcessor.on_after_load_track:fresh-list:{lvl}")
+        if fs is not None:
+            alts = dnf(ast.BoolOp(op=ast.And(), values=list(fs)) if len(fs) != 1 else fs[0]) if fs else [[]]
+            if alts is None:
+                chk.unknown("O11.3", f"the condition under which `{lv}` is queued for removal is too large to be split into alternatives", site)
+                continue
+            # each alternative of the condition is either the emptiness clean-up (decided by O11.2) or the match routine on that very element and nothing else
+            alts = [a for a in alts if not (any(emptiness_test(f_, lv) == "empty" for f_ in a) and not any(is_match_call(f_, lv) for f_ in a))]
+            if not alts:
+                continue
+            hidden = [x for a in alts for f_ in a for x in ast.walk(f_) if isinstance(x, ast.Call) and helper_of(x) is not None and helper_of(x) is not fo]
+            if hidden:
+                chk.unknown("O11.3", f"`{lv}` is queued for removal under a condition computed by {short(hidden[0], 50)}, which could not be read together with its caller", site)
+                continue
+            ok = all(len(a) == 1 and is_match_call(a[0], lv) for a in alts)
+            chk.ob("O11.3", f"`{lv}` is queued for removal iff the match routine says so (no further condition)", ok, site, f"written under {' or '.join(str([u(f_) for f_ in a]) for a in alts)}" +
                    ("" if ok else " — an element the filters select for removal stays in the schedule (or one they keep is removed)"), key=f"{_L}:TaskFilterTrackProcessor.on_after_load_track:queue:{lv}")
-    chk.ob("O11.3", "removal queues located (top-level elements and leaves)", n_q >= 2, oa, f"{n_q} site(s)")
+        found.add(lvl)
+        if lvl == "leaf":
+            leaf_guard(node)
+    for n, fs_ in fstores:
+        owner, cattr, var, keep = fs_
+        if cattr == "tasks" and isinstance(owner, ast.Name) and owner.id in top_vars and any(n is x for x in ast.walk(oaX)):
+            # `<element>.tasks = [t for t in <element>.tasks if <keep>]`: a leaf is removed iff not <keep>; every alternative of that must be the match routine on the leaf, nothing else
+            alts = dnf(negate(ast.BoolOp(op=ast.And(), values=list(keep)) if len(keep) != 1 else keep[0])) if keep else []
+            if alts is None:
+                chk.unknown("O11.3", f"the condition under which `{var}` is kept is too large to be split into alternatives", n)
+                continue
+            ok = bool(alts) and all(len(a) == 1 and is_match_call(a[0], var) for a in alts)
+            chk.ob("O11.3", f"`{var}` is queued for removal iff the match routine says so (no further condition)", ok, n, f"removed under {' or '.join(str([u(f_) for f_ in a]) for a in alts) or 'no condition'}" +
+                   ("" if ok else " — an element the filters select for removal stays in the schedule (or one they keep is removed)"), key=f"{_L}:TaskFilterTrackProcessor.on_after_load_track:queue:{var}")
+            found.add("leaf")
+            leaf_guard(n)
+    if found >= {"top", "leaf"}:
+        chk.ob("O11.3", "removal queues located (top-level elements and leaves)", True, oa, f"{len(queues)} site(s)")
+    else:
+        chk.unknown("O11.3", f"removal queues not located for {sorted({'top', 'leaf'} - found)} (an `append` of the loop variable, a filtering comprehension or filter() over the schedule of a challenge "
+                    "resp. over a schedule element)", oa)
     # the match decision is taken per OBJECT: tasks compare equal when name / operation / settings agree although their tags differ, so a memoised matches() (lru_cache, cache)
     # replays one task's decision for another
     for cname in ("Task", "Parallel", "TaskNameFilter", "TaskOpTypeFilter", "TaskTagFilter"):
@@ -545,12 +1650,12 @@ def run(chk):
         return out
 
     hook_slice = closure(oa)
-    for c in shrink:
+    for c, recv_ in shrink:
         fn = source.enclosing_func(c)
         sl = closure(fn)
         refs = [r_ for f_ in sl for r_ in role_refs(f_)]
         root = oa if any(fn is f_ for f_ in hook_slice) else fn  # the finding is keyed by the processor hook that performs the removal, wherever a helper puts the call itself
-        chk.ob("O11.5", f"{source.qualname(c)}: removing a leaf of {u(c.func.value)} consults the leaf's completing role `{role}`", bool(refs), refs[0] if refs else c,
+        chk.ob("O11.5", f"{source.qualname(c)}: removing a leaf of {u(recv_)} consults the leaf's completing role `{role}`", bool(refs), refs[0] if refs else c,
                (f"{len(refs)} reference(s), first in {source.qualname(refs[0])}" if refs else
                 f"no reference to `{role}` in {', '.join(sorted(source.qualname(f_) for f_ in sl))}: the leaf named by completed-by is removed like any other leaf and nothing else happens - "
                 "the join point of the element gets no completing client, remaining siblings that only end with their parent never end"),
@@ -568,24 +1673,29 @@ def completing_role(repo, ldr, tinit):
         fparams = set(params_of(fn)) | {a.arg for a in fn.args.kwonlyargs}
         defs = local_defs(fn)
         callers = [c for c in package_calls(repo, fn.name) if c is not call]
-        for k_, val in source.bind_args(call, tinit).items():
-            v = source.inline_node(val, defs)
-            if not (isinstance(v, ast.Compare) and len(v.ops) == 1 and isinstance(v.ops[0], ast.Eq)):
-                continue
-            sides = [v.left, v.comparators[0]]
-            carrier = [s_ for s_ in sides if isinstance(s_, ast.Name) and s_.id in fparams]
-            other = [s_ for s_ in sides if not (isinstance(s_, ast.Name) and s_.id in fparams)]
-            if len(carrier) != 1 or len(other) != 1 or isinstance(other[0], ast.Constant):
-                continue  # `<p> == "any"` is the any-task-completes role, not THE completing task
-            fed = False
+        def fed_by_callers(pname):
             for cc in callers:
                 cf = source.enclosing_func(cc)
-                arg = source.bind_args(cc, fn).get(carrier[0].id)
-                if arg is None or cf is None:
-                    continue
-                av = source.inline_node(arg, local_defs(cf))
-                fed = fed or any(source.is_const(x, "completed-by") for x in ast.walk(av))
-            if not fed:
+                arg = source.bind_args(cc, fn).get(pname)
+                if arg is not None and cf is not None and any(source.is_const(x, "completed-by") for x in ast.walk(source.inline_node(arg, local_defs(cf)))):
+                    return True
+            return False
+
+        def carries(side_):
+            """the expression is the value read under "completed-by": a parameter fed with it by a caller, or (locals inlined) the read itself"""
+            if isinstance(side_, ast.Name) and side_.id in fparams:
+                return fed_by_callers(side_.id)
+            return any(source.is_const(x, "completed-by") for x in ast.walk(side_))
+
+        for k_, val in source.bind_args(call, tinit).items():
+            v = source.inline_node(val, defs)
+            found = False
+            # somewhere in the value: `<task name> == <completed-by>` (either orientation); `<completed-by> == "any"` is another role, and a membership test against several names
+            # does not single out THE completing task (the role is then not derivable: inconclusive)
+            for cmp_ in [x for x in ast.walk(v) if isinstance(x, ast.Compare) and len(x.ops) == 1 and isinstance(x.ops[0], ast.Eq)]:
+                sides = [cmp_.left, cmp_.comparators[0]]
+                found = found or any(carries(a_) and not isinstance(b_, ast.Constant) and not carries(b_) for a_, b_ in (sides, sides[::-1]))
+            if not found:
                 continue
             for n in walk_body(tinit):
                 if isinstance(n, ast.Assign) and len(n.targets) == 1 and is_self_attr(n.targets[0]) and any(isinstance(x, ast.Name) and x.id == k_ for x in ast.walk(n.value)):
@@ -630,4 +1740,374 @@ VARIANTS = [
     [V("completing role computed into a local first, comparison flipped", "keep", _L, "            completes_parent=(task_name == completed_by_name),\n", "            completes_parent=is_completing,\n"),
      V("(second edit of the same variant: the local)", "keep", _L, "        task = track.Task(\n            name=task_name,", "        is_completing = completed_by_name == task_name\n        task = track.Task(\n            name=task_name,")],
     V("Task stores the completing role through bool()", "keep", _T, "        self.completes_parent = completes_parent\n", "        self.completes_parent = bool(completes_parent)\n"),
+]
+
+# ---- hardening round 2: refactored shapes (extracted helpers, table dispatch, comprehensions, renamed attributes) - each accepted shape with a defect placed INSIDE that shape ----------
+_OA = """        for challenge in track.challenges:
+            # don't modify the schedule while iterating over it
+            tasks_to_remove = []
+            for task in challenge.schedule:
+                if self._filter_out_match(task):
+                    tasks_to_remove.append(task)
+                else:
+                    leafs_to_remove = []
+                    for leaf_task in task:
+                        if self._filter_out_match(leaf_task):
+                            leafs_to_remove.append(leaf_task)
+                    for leaf_task in leafs_to_remove:
+                        self.logger.info("Removing sub-task [%s] from challenge [%s] due to task filter.", leaf_task, challenge)
+                        task.remove_task(leaf_task)
+                    # a parallel element without any remaining sub-task cannot be run
+                    if isinstance(task, Parallel) and len(task.tasks) == 0:
+                        tasks_to_remove.append(task)
+            for task in tasks_to_remove:
+                self.logger.info("Removing task [%s] from challenge [%s] due to task filter.", task, challenge)
+                challenge.remove_task(task)
+
+        return track
+"""
+_FO = """        for f in self.filters:
+            if task.matches(f):
+                if hasattr(task, "tasks") and self.exclude:
+                    return False
+                return self.exclude
+        return not self.exclude
+"""
+_INIT = """        if include_tasks:
+            filtered_tasks = include_tasks
+            self.exclude = False
+        else:
+            filtered_tasks = exclude_tasks
+            self.exclude = True
+        self.filters = self._filters_from_filtered_tasks(filtered_tasks)
+"""
+_FF = """        filters = []
+        if filtered_tasks:
+            for t in filtered_tasks:
+                spec = t.split(":")
+                if len(spec) == 1:
+                    filters.append(track.TaskNameFilter(spec[0]))
+                elif len(spec) == 2:
+                    if spec[0] == "type":
+                        # TODO remove the below ignore when introducing type hints
+                        filters.append(track.TaskOpTypeFilter(spec[1]))  # type: ignore[arg-type]
+                    elif spec[0] == "tag":
+                        # TODO remove the below ignore when introducing type hints
+                        filters.append(track.TaskTagFilter(spec[1]))  # type: ignore[arg-type]
+                    else:
+                        raise exceptions.SystemSetupError(f"Invalid format for filtered tasks: [{t}]. Expected [type] but got [{spec[0]}].")
+                else:
+                    raise exceptions.SystemSetupError(f"Invalid format for filtered tasks: [{t}]")
+        return filters
+"""
+_NF = """class TaskNameFilter:
+    def __init__(self, name):
+        self.name = name
+
+    def matches(self, task):
+        return self.name == task.name
+"""
+_TF = """class TaskTagFilter:
+    def __init__(self, tag_name):
+        self.tag_name = tag_name
+
+    def matches(self, task):
+        return self.tag_name in task.tags
+"""
+
+
+def _helpers_shape(empty_expr, use):
+    """the hook split into _filter_challenge / _remove_filtered_leafs (shape of benign/C11-b1); empty_expr: what the leaf helper returns; use: how the caller uses it"""
+    return f"""        for challenge in track.challenges:
+            self._filter_challenge(challenge)
+
+        return track
+
+    def _remove_filtered_leafs(self, challenge, task):
+        leafs_to_remove = []
+        for leaf_task in task:
+            if self._filter_out_match(leaf_task):
+                leafs_to_remove.append(leaf_task)
+        for leaf_task in leafs_to_remove:
+            self.logger.info("Removing sub-task [%s] from challenge [%s] due to task filter.", leaf_task, challenge)
+            task.remove_task(leaf_task)
+        return {empty_expr}
+
+    def _filter_challenge(self, challenge):
+        tasks_to_remove = []
+        for task in challenge.schedule:
+            if self._filter_out_match(task):
+                tasks_to_remove.append(task)
+{use}
+        for task in tasks_to_remove:
+            challenge.remove_task(task)
+"""
+
+
+_USE_ELIF = "            elif self._remove_filtered_leafs(challenge, task):\n                tasks_to_remove.append(task)"
+_B3 = """        for challenge in track.challenges:
+            tasks_to_remove = []
+            for task in challenge.schedule:
+                if self._filter_out_match(task):
+                    tasks_to_remove.append(task)
+                elif {guard}:
+                    leafs_to_remove = [leaf_task for leaf_task in task if self._filter_out_match(leaf_task){extra}]
+                    for leaf_task in leafs_to_remove:
+                        task.remove_task(leaf_task)
+                    if len(task.tasks) == 0:
+                        tasks_to_remove.append(task)
+            for task in tasks_to_remove:
+                challenge.remove_task(task)
+
+        return track
+"""
+_TABLE_FF = """        filters = []
+        for t in filtered_tasks or []:
+            spec = t.split(TASK_FILTER_SEPARATOR)
+            if len(spec) > 2:
+                raise exceptions.SystemSetupError(f"Invalid format for filtered tasks: [{t}]")
+            if len(spec) == 1:
+                filters.append(track.TaskNameFilter(spec[0]))
+                continue
+            prefix, value = spec
+            filter_class = TASK_FILTERS_BY_PREFIX.get(prefix)
+            if filter_class is None:
+                raise exceptions.SystemSetupError(f"Invalid format for filtered tasks: [{t}]. Expected [type] but got [{prefix}].")
+            filters.append(filter_class(value))
+        return filters
+"""
+_CLS = "class TaskFilterTrackProcessor(TrackProcessor):\n"
+
+
+def _table(type_cls):
+    return f'TASK_FILTER_SEPARATOR = ":"\nTASK_FILTERS_BY_PREFIX = {{\n    "type": track.{type_cls},\n    "tag": track.TaskTagFilter,\n}}\n\n\n' + _CLS
+
+
+VARIANTS += [
+    # extracted helpers (read together with their caller by inline_helpers)
+    V("helpers extracted (b1 shape), the leaf helper reports NON-empty elements", "break", _L, _OA, _helpers_shape("isinstance(task, Parallel) and len(task.tasks) > 0", _USE_ELIF), "O11.2"),
+    V("helpers extracted (b1 shape), the result of the leaf helper is ignored", "break", _L, _OA, _helpers_shape("isinstance(task, Parallel) and len(task.tasks) == 0", "            else:\n                self._remove_filtered_leafs(challenge, task)"), "O11.2"),
+    V("helpers extracted (b1 shape), the leaf helper is only called for removed elements", "break", _L, _OA,
+      _helpers_shape("isinstance(task, Parallel) and len(task.tasks) == 0", "                if self._remove_filtered_leafs(challenge, task):\n                    pass"), "O11."),
+    V("leaf helper with guard clause, or-combined with the match routine", "keep", _L, _OA, """        for challenge in track.challenges:
+            doomed = []
+            for element in challenge.schedule:
+                if self._filter_out_match(element) or self._emptied(challenge, element):
+                    doomed.append(element)
+            for element in doomed:
+                challenge.remove_task(element)
+
+        return track
+
+    def _emptied(self, challenge, element):
+        if not isinstance(element, Parallel):
+            return False
+        gone = [leaf for leaf in element if self._filter_out_match(leaf)]
+        for leaf in gone:
+            element.remove_task(leaf)
+        return not element.tasks
+"""),
+    V("leaf helper with guard clause, or-combined, reports emptiness of the wrong kind", "break", _L, _OA, """        for challenge in track.challenges:
+            doomed = []
+            for element in challenge.schedule:
+                if self._filter_out_match(element) or self._emptied(challenge, element):
+                    doomed.append(element)
+            for element in doomed:
+                challenge.remove_task(element)
+
+        return track
+
+    def _emptied(self, challenge, element):
+        if not isinstance(element, Parallel):
+            return False
+        gone = [leaf for leaf in element if self._filter_out_match(leaf)]
+        for leaf in gone:
+            element.remove_task(leaf)
+        return not gone
+""", "O11."),
+    V("helper returns the removal list, guard-clause continue, static emptiness predicate", "keep", _L, _OA, """        for challenge in track.challenges:
+            for task in self._tasks_to_remove(challenge):
+                self.logger.info("Removing task [%s] from challenge [%s] due to task filter.", task, challenge)
+                challenge.remove_task(task)
+
+        return track
+
+    @staticmethod
+    def _is_empty_parallel(task):
+        return isinstance(task, Parallel) and not task.tasks
+
+    def _tasks_to_remove(self, challenge):
+        result = []
+        for task in challenge.schedule:
+            if self._filter_out_match(task):
+                result.append(task)
+                continue
+            for leaf_task in [leaf for leaf in task if self._filter_out_match(leaf)]:
+                task.remove_task(leaf_task)
+            if self._is_empty_parallel(task):
+                result.append(task)
+        return result
+"""),
+    V("helper returns the removal list but the caller never removes its elements", "break", _L, _OA, """        for challenge in track.challenges:
+            for task in self._tasks_to_remove(challenge):
+                self.logger.info("Removing task [%s] from challenge [%s] due to task filter.", task, challenge)
+
+        return track
+
+    def _tasks_to_remove(self, challenge):
+        result = []
+        for task in challenge.schedule:
+            if self._filter_out_match(task):
+                result.append(task)
+                continue
+            for leaf_task in [leaf for leaf in task if self._filter_out_match(leaf)]:
+                task.remove_task(leaf_task)
+            if isinstance(task, Parallel) and not task.tasks:
+                result.append(task)
+        return result
+""", "O11.2"),
+    # second pass only for parallel elements, comprehension queue (b3 shape)
+    V("b3 shape: leaf pass only for NON-parallel elements", "break", _L, _OA, _B3.format(guard="not isinstance(task, Parallel)", extra=""), "O11.3"),
+    V("b3 shape: the leaf comprehension has a further condition", "break", _L, _OA, _B3.format(guard="isinstance(task, Parallel)", extra=" and leaf_task.clients > 1"), "O11.3"),
+    V("b3 shape with hasattr as the parallel test", "keep", _L, _OA, _B3.format(guard="hasattr(task, 'tasks')", extra="")),
+    V("match routine as one expression per arm (b3 shape), parallel special case inverted", "break", _L, _FO,
+      "        if any(task.matches(f) for f in self.filters):\n            return self.exclude or not hasattr(task, \"tasks\")\n        return not self.exclude\n", "O11.1"),
+    # direct removal over a copy / a removal list that is not reset / additive features
+    V("direct removal while iterating COPIES", "keep", _L, _OA, """        for challenge in track.challenges:
+            for task in list(challenge.schedule):
+                if self._filter_out_match(task):
+                    challenge.remove_task(task)
+                    continue
+                for leaf_task in list(task):
+                    if self._filter_out_match(leaf_task):
+                        task.remove_task(leaf_task)
+                if isinstance(task, Parallel) and not task.tasks:
+                    challenge.remove_task(task)
+
+        return track
+"""),
+    V("direct removal while iterating the schedule itself", "break", _L, _OA, """        for challenge in track.challenges:
+            for task in challenge.schedule:
+                if self._filter_out_match(task):
+                    challenge.remove_task(task)
+                    continue
+                for leaf_task in list(task):
+                    if self._filter_out_match(leaf_task):
+                        task.remove_task(leaf_task)
+                if isinstance(task, Parallel) and not task.tasks:
+                    challenge.remove_task(task)
+
+        return track
+""", "O11.3"),
+    V("removal list created once for all challenges (edit 2 of seed m9 alone)", "break", _L,
+      "        for challenge in track.challenges:\n            # don't modify the schedule while iterating over it\n            tasks_to_remove = []\n            for task in challenge.schedule:\n                if self._filter_out_match(task):\n",
+      "        tasks_to_remove = []\n        for challenge in track.challenges:\n            for task in challenge.schedule:\n                if self._filter_out_match(task):\n", "O11.3"),
+    V("counters, a summary log line and attributes of the processor itself", "keep", _L,
+      "            for task in tasks_to_remove:\n                self.logger.info(\"Removing task [%s] from challenge [%s] due to task filter.\", task, challenge)\n                challenge.remove_task(task)\n",
+      "            for task in tasks_to_remove:\n                self.logger.info(\"Removing task [%s] from challenge [%s] due to task filter.\", task, challenge)\n                challenge.remove_task(task)\n"
+      "            self.removed_tasks += len(tasks_to_remove)\n            self.removed_per_challenge[challenge.name] = len(tasks_to_remove)\n"),
+    V("the hook re-writes the filters of the processor", "break", _L,
+      "            for task in tasks_to_remove:\n                self.logger.info(\"Removing task [%s] from challenge [%s] due to task filter.\", task, challenge)\n                challenge.remove_task(task)\n",
+      "            for task in tasks_to_remove:\n                self.logger.info(\"Removing task [%s] from challenge [%s] due to task filter.\", task, challenge)\n                challenge.remove_task(task)\n"
+      "            self.filters = self.filters[1:]\n", "O11.3"),
+    # constructor: mode and list decided on values
+    V("mode as `not include_tasks`, list as `include_tasks or exclude_tasks`", "keep", _L, _INIT,
+      "        self.exclude = not include_tasks\n        self.filters = self._filters_from_filtered_tasks(include_tasks or exclude_tasks)\n"),
+    V("exclude list wins when both lists are given", "break", _L, _INIT,
+      "        self.exclude = bool(exclude_tasks)\n        self.filters = self._filters_from_filtered_tasks(exclude_tasks or include_tasks)\n", "O11.1"),
+    [V("mode attribute renamed with flipped polarity (include_mode)", "keep", _L, _INIT,
+       "        self.include_mode = bool(include_tasks)\n        self.filters = self._filters_from_filtered_tasks(include_tasks if include_tasks else exclude_tasks)\n"),
+     V("(second edit: the match routine reads include_mode)", "keep", _L, _FO,
+       "        for f in self.filters:\n            if task.matches(f):\n                if hasattr(task, \"tasks\") and not self.include_mode:\n                    return False\n                return not self.include_mode\n        return self.include_mode\n")],
+    [V("include_mode, but the match arm returns the mode itself", "break", _L, _INIT,
+       "        self.include_mode = bool(include_tasks)\n        self.filters = self._filters_from_filtered_tasks(include_tasks if include_tasks else exclude_tasks)\n", "O11.1"),
+     V("(second edit)", "break", _L, _FO,
+       "        for f in self.filters:\n            if task.matches(f):\n                if hasattr(task, \"tasks\") and not self.include_mode:\n                    return False\n                return self.include_mode\n        return self.include_mode\n", "O11.1")],
+    # spec parsing: table dispatch (b2 shape), comprehension with helper
+    [V("prefix table (b2 shape) maps type: to the name filter", "break", _L, _FF, _TABLE_FF, "O11.1"), V("(second edit: the table)", "break", _L, _CLS, _table("TaskNameFilter"), "O11.1")],
+    [V("prefix table (b2 shape), items handled as lower case", "break", _L, _FF, _TABLE_FF.replace("t.split(TASK_FILTER_SEPARATOR)", "t.lower().split(TASK_FILTER_SEPARATOR)"), "O11.1"),
+     V("(second edit: the table)", "break", _L, _CLS, _table("TaskOpTypeFilter"), "O11.1")],
+    V("spec parsing as a comprehension over a helper using rpartition", "keep", _L, _FF, """        return [self._filter_for(t) for t in filtered_tasks or []]
+
+    def _filter_for(self, t):
+        kind, sep, value = t.rpartition(":")
+        if not sep:
+            return track.TaskNameFilter(value)
+        if kind == "type":
+            return track.TaskOpTypeFilter(value)
+        if kind == "tag":
+            return track.TaskTagFilter(value)
+        raise exceptions.SystemSetupError(f"Invalid format for filtered tasks: [{t}]")
+"""),
+    V("spec parsing stops after the first plain task name", "break", _L, "                if len(spec) == 1:\n                    filters.append(track.TaskNameFilter(spec[0]))\n",
+      "                if len(spec) == 1:\n                    filters.append(track.TaskNameFilter(spec[0]))\n                    break\n", "O11.1"),
+    # match routine: helper that scans the filters, first filter only
+    V("match routine asks a search-loop helper", "keep", _L, _FO, """        if self._matches_any(task):
+            return self.exclude and not hasattr(task, "tasks")
+        return not self.exclude
+
+    def _matches_any(self, element):
+        for f in self.filters:
+            if element.matches(f):
+                return True
+        return False
+"""),
+    V("search-loop helper only consults the first filter", "break", _L, _FO, """        if self._matches_any(task):
+            return self.exclude and not hasattr(task, "tasks")
+        return not self.exclude
+
+    def _matches_any(self, element):
+        for f in self.filters:
+            return element.matches(f)
+        return False
+""", "O11.1"),
+    V("match routine with flag and break", "keep", _L, _FO, """        matched = False
+        for f in self.filters:
+            if task.matches(f):
+                matched = True
+                break
+        if not matched:
+            return not self.exclude
+        if isinstance(task, Parallel):
+            return False
+        return self.exclude
+"""),
+    # filter classes / Task: decided on values
+    V("name filter: attribute renamed, guard form", "keep", _T, _NF, "class TaskNameFilter:\n    def __init__(self, task_name):\n        self._task_name = task_name\n\n    def matches(self, t):\n        if t.name != self._task_name:\n            return False\n        return True\n"),
+    V("name filter matches prefixes", "break", _T, _NF, "class TaskNameFilter:\n    def __init__(self, name):\n        self.name = name\n\n    def matches(self, task):\n        return task.name.startswith(self.name)\n", "O11.1"),
+    V("name filter strips its argument", "break", _T, _NF, "class TaskNameFilter:\n    def __init__(self, name):\n        self.name = name.strip()\n\n    def matches(self, task):\n        return self.name == task.name\n", "O11.1"),
+    V("tag filter via any(==)", "keep", _T, _TF, "class TaskTagFilter:\n    def __init__(self, tag_name):\n        self.tag = tag_name\n\n    def matches(self, task):\n        return any(self.tag == t for t in task.tags)\n"),
+    V("tag filter matches substrings of a tag", "break", _T, _TF, "class TaskTagFilter:\n    def __init__(self, tag_name):\n        self.tag_name = tag_name\n\n    def matches(self, task):\n        return any(self.tag_name in t for t in task.tags)\n", "O11.1"),
+    V("Task.matches asks the filter about the operation", "break", _T, "        return task_filter.matches(self)\n", "        return task_filter.matches(self.operation)\n", "O11.1"),
+    V("Task.matches negates nothing but goes through a local", "keep", _T, "        return task_filter.matches(self)\n", "        selected = task_filter.matches(self)\n        self_check = selected is True\n        return selected and self_check\n"),
+    [V("tags normalised by a module-level helper", "keep", _T, "        if isinstance(tags, str):\n            self.tags = [tags]\n        elif tags:\n            self.tags = tags\n        else:\n            self.tags = []\n", "        self.tags = _as_list(tags)\n"),
+     V("(second edit: the helper)", "keep", _T, "class TaskNameFilter:\n", "def _as_list(v):\n    if not v:\n        return []\n    return [v] if isinstance(v, str) else v\n\n\nclass TaskNameFilter:\n")],
+    [V("tags helper turns a string into its characters", "break", _T, "        if isinstance(tags, str):\n            self.tags = [tags]\n        elif tags:\n            self.tags = tags\n        else:\n            self.tags = []\n", "        self.tags = _as_list(tags)\n", "O11.1"),
+     V("(second edit: the helper)", "break", _T, "class TaskNameFilter:\n", "def _as_list(v):\n    return list(v) if v else []\n\n\nclass TaskNameFilter:\n", "O11.1")],
+    V("Challenge.remove_task idempotent (edit 1 of seed m9 alone: neutral)", "keep", _T, "        self.schedule.remove(task)\n", "        if task in self.schedule:\n            self.schedule.remove(task)\n"),
+    V("Parallel.remove_task rebuilds the list by identity", "keep", _T, "        self.tasks.remove(task)\n", "        self.tasks = [t for t in self.tasks if t is not task]\n"),
+    V("Parallel.remove_task drops everything from the removed task on", "break", _T, "        self.tasks.remove(task)\n", "        self.tasks = self.tasks[: self.tasks.index(task)]\n", "O11.3"),
+]
+
+_FS = """        for challenge in track.challenges:
+            tasks_to_remove = []
+            for task in challenge.schedule:
+                if self._filter_out_match(task):
+                    tasks_to_remove.append(task)
+                elif isinstance(task, Parallel):
+                    task.tasks = [leaf for leaf in task.tasks if {keep}]
+{empty}            for task in tasks_to_remove:
+                challenge.remove_task(task)
+
+        return track
+"""
+_FS_EMPTY = "                    if not task.tasks:\n                        tasks_to_remove.append(task)\n"
+VARIANTS += [
+    V("leaves removed by a filtering store `task.tasks = [leaf for leaf in task.tasks if not <match>]`", "keep", _L, _OA, _FS.format(keep="not self._filter_out_match(leaf)", empty=_FS_EMPTY)),
+    V("filtering store keeps exactly the leaves the filters remove", "break", _L, _OA, _FS.format(keep="self._filter_out_match(leaf)", empty=_FS_EMPTY), "O11.3"),
+    V("filtering store keeps a leaf under a further condition", "break", _L, _OA, _FS.format(keep="not self._filter_out_match(leaf) or leaf.clients > 1", empty=_FS_EMPTY), "O11.3"),
+    V("filtering store without an emptiness test afterwards", "break", _L, _OA, _FS.format(keep="not self._filter_out_match(leaf)", empty=""), "O11.2"),
+    [V("the options are read through a helper of the processor", "keep", _L, "        include_tasks = cfg.opts(\"track\", \"include.tasks\", mandatory=False)\n        exclude_tasks = cfg.opts(\"track\", \"exclude.tasks\", mandatory=False)\n",
+       "        include_tasks = self._task_list(cfg, \"include.tasks\")\n        exclude_tasks = self._task_list(cfg, \"exclude.tasks\")\n"),
+     V("(second edit: the helper)", "keep", _L, "    def _filter_out_match(self, task):\n", "    @staticmethod\n    def _task_list(cfg, key):\n        return cfg.opts(\"track\", key, mandatory=False)\n\n    def _filter_out_match(self, task):\n")],
 ]
